@@ -105,6 +105,12 @@ Proof.
   rewrite er_handle, er_kind. destruct (a_handle a =? h); [reflexivity|apply IH].
 Qed.
 
+Lemma er_set_cbs a n i : er (set_cbs a n i) = set_cbs (er a) n i.
+Proof. unfold Model.er. cbn. destruct (S (a_handle a)); reflexivity. Qed.
+
+Lemma er_set_value_public a x : S (a_handle a) = false -> er (set_value a x) = set_value (er a) x.
+Proof. unfold Model.er. cbn. intros ->. reflexivity. Qed.
+
 End Erasure.
 
 Lemma sorted_in_lookup db : forall lo a, sorted_from lo db = true -> In a db -> lookup (a_handle a) db = Some a.
@@ -122,7 +128,67 @@ Proof.
   specialize (Hgt r _ Hr a Hin). lia.
 Qed.
 
+(** * Static part of the database *)
+
+Definition static_db (d1 d2 : db_t) : Prop := Forall2 static_eq d1 d2.
+
+Lemma static_db_refl d : static_db d d.
+Proof. induction d; constructor; [apply static_eq_refl|assumption]. Qed.
+
+Lemma static_db_trans d1 d2 d3 : static_db d1 d2 -> static_db d2 d3 -> static_db d1 d3.
+Proof.
+  intros H. revert d3. induction H; intros d3 H3; inversion H3; subst; constructor.
+  - eapply static_eq_trans; eauto.
+  - apply IHForall2. assumption.
+Qed.
+
+Lemma update_static h f db : (forall a, static_eq a (f a)) -> static_db db (update h f db).
+Proof.
+  intros Hf. induction db as [|x r IH]; cbn [update]; [constructor|].
+  destruct (a_handle x =? h); constructor; try apply static_eq_refl; try apply Hf; try apply static_db_refl; exact IH.
+Qed.
+
+Lemma set_value_static a x : static_eq a (set_value a x).
+Proof. unfold static_eq. cbn. tauto. Qed.
+
+Lemma set_cbs_static a n i : static_eq a (set_cbs a n i).
+Proof. unfold static_eq. cbn. tauto. Qed.
+
+Lemma lookup_static d1 d2 h : static_db d1 d2 ->
+  match lookup h d1, lookup h d2 with
+  | Some a, Some b => static_eq a b
+  | None, None => True
+  | _, _ => False
+  end.
+Proof.
+  induction 1 as [|a b r1 r2 E _ IH]; cbn [lookup]; [exact I|].
+  pose proof E as (Hh & _). rewrite <- Hh. destruct (a_handle a =? h); [exact E|exact IH].
+Qed.
+
+Lemma static_sorted d1 d2 : static_db d1 d2 -> forall lo, sorted_from lo d1 = sorted_from lo d2.
+Proof.
+  induction 1 as [|a b r1 r2 E _ IH]; intros lo; cbn [sorted_from]; [reflexivity|].
+  destruct E as (Hh & _). rewrite Hh, IH. reflexivity.
+Qed.
+
+Lemma cccd_handle_spec db d hc : cccd_handle db d = Some hc ->
+  exists x, In x db /\ a_handle x = hc /\ a_kind x = KCccd /\ owner_decl hc db None = Some d.
+Proof.
+  unfold cccd_handle. destruct (find _ db) as [x|] eqn:E; [|discriminate]. intros H. inversion H; subst.
+  apply find_some in E as [Hin Hp]. apply andb_true_iff in Hp as [Hk Ho].
+  exists x. repeat split; try assumption.
+  - destruct (a_kind x); try discriminate. reflexivity.
+  - destruct (owner_decl (a_handle x) db None) as [o|]; [|discriminate]. apply N.eqb_eq in Ho. congruence.
+Qed.
+
+Lemma db_sorted st : wf_state st = true -> sorted_from 0 (st_db st) = true.
+Proof.
+  intros Hwf. apply wf_state_inv in Hwf as (H & _). unfold wf_db in H.
+  apply andb_true_iff in H as [H _]. apply andb_true_iff in H as [H _]. exact H.
+Qed.
+
 Definition relabel (r : hres) (st' : state) : hres := mkRes st' (r_out r) (r_exc r).
+Definition map_state (f : state -> state) (r : hres) : hres := mkRes (f (r_state r)) (r_out r) (r_exc r).
 
 Section NI.
 Variable S : N -> bool.
@@ -136,14 +202,8 @@ Qed.
 
 Section Step.
 Variable st : state.
-Hypothesis Hwf : wf_state st = true.
+Hypothesis Hsorted : sorted_from 0 (st_db st) = true.
 Hypothesis Hsec : secret_ok st S.
-
-Lemma db_sorted : sorted_from 0 (st_db st) = true.
-Proof.
-  apply wf_state_inv in Hwf as (H & _). unfold wf_db in H.
-  apply andb_true_iff in H as [H _]. apply andb_true_iff in H as [H _]. exact H.
-Qed.
 
 Lemma er_lookup_id h a :
   lookup h (st_db st) = Some a -> (a_kind a <> KValue \/ value_may_read st h = true) -> er a = a.
@@ -154,7 +214,7 @@ Proof.
 Qed.
 
 Lemma er_in_id a : In a (st_db st) -> (a_kind a <> KValue \/ value_may_read st (a_handle a) = true) -> er a = a.
-Proof. intros Hin. apply er_lookup_id. eapply sorted_in_lookup; [apply db_sorted|exact Hin]. Qed.
+Proof. intros Hin. apply er_lookup_id. eapply sorted_in_lookup; [apply Hsorted|exact Hin]. Qed.
 
 Lemma view_db : st_db (view st) = map er (st_db st).
 Proof. reflexivity. Qed.
@@ -211,33 +271,144 @@ Proof.
   destruct (fbtv_match V_fixed st (uuid16 ty) vr (by_range s e (st_db st))) as [[|x l]|]; reflexivity.
 Qed.
 
-Lemma read_value_answer_relabel st0 st1 op opa h o mk n ov :
-  read_value_answer st1 op opa h o mk n ov = relabel (read_value_answer st0 op opa h o mk n ov) st1.
+(** *** characteristic updates made by hooks commute with the view (when they avoid [S]) *)
+
+Lemma cccd_handle_er db d : cccd_handle (map er db) d = cccd_handle db d.
+Proof.
+  unfold cccd_handle.
+  assert (G : forall l, option_map a_handle (find (fun a => kind_eqb (a_kind a) KCccd
+                 && match owner_decl (a_handle a) (map er db) None with Some o => o =? d | None => false end) (map er l))
+              = option_map a_handle (find (fun a => kind_eqb (a_kind a) KCccd
+                 && match owner_decl (a_handle a) db None with Some o => o =? d | None => false end) l)).
+  { induction l as [|a r IH]; cbn [map find]; [reflexivity|].
+    rewrite er_kind, er_handle, owner_decl_er.
+    destruct (kind_eqb (a_kind a) KCccd && _); [cbn; rewrite er_handle; reflexivity|exact IH]. }
+  apply G.
+Qed.
+
+Lemma cfg_of_er db d :
+  sorted_from 0 db = true ->
+  (forall h a, lookup h db = Some a -> a_kind a <> KValue -> S h = false) ->
+  cfg_of (map er db) d = cfg_of db d.
+Proof.
+  intros Hs Hn. unfold cfg_of. rewrite cccd_handle_er.
+  destruct (cccd_handle db d) as [hc|] eqn:Ec; [|reflexivity].
+  rewrite lookup_er.
+  destruct (cccd_handle_spec _ _ _ Ec) as (x & Hin & Hh & Hk & _).
+  pose proof (sorted_in_lookup _ 0 x Hs Hin) as Lx. rewrite Hh in Lx. rewrite Lx. cbn [option_map].
+  rewrite er_public; [reflexivity|]. rewrite Hh. apply (Hn hc x Lx). rewrite Hk. discriminate.
+Qed.
+
+Lemma S_only_values h a : lookup h (st_db st) = Some a -> a_kind a <> KValue -> S h = false.
+Proof.
+  intros L K. destruct (S h) eqn:E; [|reflexivity]. destruct (Hsec h E) as [_ H2]. specialize (H2 a L). contradiction.
+Qed.
+
+Lemma set_proc_view s0 id b : set_proc (view s0) id b = view (set_proc s0 id b).
+Proof. unfold set_proc. change (i_id (st_cur (view s0))) with (i_id (st_cur s0)). destruct (_ =? _); reflexivity. Qed.
+
+Lemma notify_via_view s0 id o mk vh val :
+  notify_via (view s0) id o mk vh val = map_state view (notify_via s0 id o mk vh val).
+Proof.
+  unfold notify_via. change (find_inst (view s0) id) with (find_inst s0 id).
+  destruct (find_inst s0 id) as [i|]; [|reflexivity]. destruct (i_proc_locked i); [reflexivity|].
+  destruct o as [|x| | | | |g1 g2 g3|]; try reflexivity; unfold map_state; cbn [r_state r_out r_exc raise];
+    rewrite set_proc_view; reflexivity.
+Qed.
+
+Lemma app_set_view d v hk : S (d + 1) = false ->
+  app_set (view st) d v hk = map_state view (app_set st d v hk).
+Proof.
+  intros Hs. unfold app_set. rewrite view_db, !lookup_er.
+  destruct (lookup d (st_db st)) as [c|]; cbn [option_map]; [|reflexivity].
+  rewrite er_kind. destruct (a_kind c); try reflexivity.
+  rewrite er_props, er_ncb, er_icb.
+  set (db1 := match lookup (d + 1) (st_db st) with
+              | Some x => if kind_eqb (a_kind x) KValue
+                          then update (d + 1) (fun a => set_value a v) (st_db st) else st_db st
+              | None => st_db st end).
+  assert (Edb : match option_map er (lookup (d + 1) (st_db st)) with
+                | Some x => if kind_eqb (a_kind x) KValue
+                            then update (d + 1) (fun a => set_value a v) (map er (st_db st)) else map er (st_db st)
+                | None => map er (st_db st) end = map er db1).
+  { unfold db1. destruct (lookup (d + 1) (st_db st)) as [x|]; cbn [option_map]; [|reflexivity].
+    rewrite er_kind. destruct (kind_eqb (a_kind x) KValue); [|reflexivity].
+    apply update_er. intros a Ea. apply er_set_value_public. rewrite Ea. exact Hs. }
+  rewrite Edb.
+  assert (Ecfg : cfg_of (map er db1) d = cfg_of db1 d).
+  { assert (Est : static_db (st_db st) db1).
+    { unfold db1. destruct (lookup (d + 1) (st_db st)) as [x|]; [|apply static_db_refl].
+      destruct (kind_eqb (a_kind x) KValue); [|apply static_db_refl].
+      apply update_static. intros. apply set_value_static. }
+    apply cfg_of_er.
+    - rewrite <- (static_sorted _ _ Est). apply Hsorted.
+    - intros h a L K. pose proof (lookup_static _ _ h Est) as LS. rewrite L in LS.
+      destruct (lookup h (st_db st)) as [a0|] eqn:L0; [|contradiction]. destruct LS as (_ & Hk & _).
+      apply (S_only_values h a0 L0). rewrite Hk. exact K. }
+  rewrite Ecfg.
+  change (with_db (view st) (map er db1)) with (view (with_db st db1)).
+  repeat match goal with
+  | |- context [if ?x then _ else _] => destruct x
+  | |- context [match a_ncb c with _ => _ end] => destruct (a_ncb c)
+  | |- context [match a_icb c with _ => _ end] => destruct (a_icb c)
+  end; try reflexivity; apply notify_via_view.
+Qed.
+
+Lemma hook_act_view hk act o : act_avoids S act = true ->
+  hook_act (view st) hk act o =
+  (let '(st1, pd, res) := hook_act st hk act o in (view st1, pd, res)).
+Proof.
+  intros Ha. unfold hook_act. destruct act as [[d v]|]; [|reflexivity].
+  cbn [act_avoids] in Ha. apply negb_true_iff in Ha. rewrite (app_set_view d v hk Ha). reflexivity.
+Qed.
+
+Lemma val_at_view s0 h : S h = false -> val_at (view s0) h = val_at s0 h.
+Proof.
+  intros Hs. unfold val_at. change (st_db (view s0)) with (map er (st_db s0)). rewrite lookup_er.
+  destruct (lookup h (st_db s0)) as [a|] eqn:L; [|reflexivity]. cbn [option_map].
+  rewrite er_public; [reflexivity|]. apply lookup_in in L as [_ ->]. exact Hs.
+Qed.
+
+Lemma hook_error_map s0 op opa h o : hook_error (view s0) op opa h o = map_state view (hook_error s0 op opa h o).
 Proof. destruct o as [|x| | | | |g1 g2 g3|]; reflexivity. Qed.
 
-Lemma read_req_view hk h : h_read_req V_fixed (view st) hk h = relabel (h_read_req V_fixed st hk h) (view st).
+Lemma read_value_answer_view hk op opa h mk (normal : state -> bytes) :
+  act_avoids S (ha_read (h_acts hk)) = true -> (forall s0, normal (view s0) = normal s0) ->
+  read_value_answer (view st) hk op opa h mk normal = map_state view (read_value_answer st hk op opa h mk normal).
 Proof.
-  unfold h_read_req. cbn [fx_read_default V_fixed].
+  intros Ha Hn. unfold read_value_answer. rewrite (hook_act_view hk _ _ Ha).
+  destruct (hook_act st hk (ha_read (h_acts hk)) (h_read hk)) as [[st1 pd] res].
+  change (mtu_of (view st)) with (mtu_of st).
+  destruct res as [o'|]; [|reflexivity].
+  destruct o' as [|x| | | | |g1 g2 g3|]; try reflexivity; try (rewrite hook_error_map; reflexivity).
+  unfold map_state. cbn [r_state r_out r_exc done]. rewrite Hn. reflexivity.
+Qed.
+
+Lemma read_req_view hk h : act_avoids S (ha_read (h_acts hk)) = true ->
+  h_read_req V_fixed (view st) hk h = map_state view (h_read_req V_fixed st hk h).
+Proof.
+  intros Ha. unfold h_read_req. cbn [fx_read_default V_fixed].
   destruct (h =? 0); [reflexivity|].
   rewrite view_db, lookup_er. destruct (lookup h (st_db st)) as [a|] eqn:El; cbn [option_map]; [|reflexivity].
-  rewrite er_kind. destruct (a_kind a) eqn:K.
+  rewrite er_kind. change (mtu_of (view st)) with (mtu_of st). destruct (a_kind a) eqn:K.
   - rewrite er_payload by (rewrite K; discriminate). reflexivity.
   - rewrite er_payload by (rewrite K; discriminate). reflexivity.
   - rewrite er_payload by (rewrite K; discriminate). reflexivity.
   - rewrite er_payload by (rewrite K; discriminate). reflexivity.
   - rewrite read_denied_view. destruct (read_denied st h) eqn:E; [reflexivity|].
-    rewrite (er_lookup_id h a El) by (right; apply read_denied_spec; exact E).
-    apply read_value_answer_relabel.
+    apply read_value_answer_view; [exact Ha|]. intros s0. rewrite val_at_view; [reflexivity|].
+    destruct (S h) eqn:Es; [|reflexivity]. destruct (Hsec h Es) as [H1 _]. apply read_denied_spec in E. congruence.
   - rewrite (er_lookup_id h a El) by (left; rewrite K; discriminate). reflexivity.
   - rewrite (er_lookup_id h a El) by (left; rewrite K; discriminate). reflexivity.
 Qed.
 
-Lemma read_blob_view hk h off : h_read_blob V_fixed (view st) hk h off = relabel (h_read_blob V_fixed st hk h off) (view st).
+Lemma read_blob_view hk h off : act_avoids S (ha_read (h_acts hk)) = true ->
+  h_read_blob V_fixed (view st) hk h off = map_state view (h_read_blob V_fixed st hk h off).
 Proof.
-  unfold h_read_blob. cbn [fx_blob V_fixed].
+  intros Ha. unfold h_read_blob. cbn [fx_blob V_fixed].
   destruct (h =? 0); [reflexivity|].
   rewrite view_db, lookup_er. destruct (lookup h (st_db st)) as [a|] eqn:El; cbn [option_map]; [|reflexivity].
-  rewrite er_kind. destruct (a_kind a) eqn:K;
+  rewrite er_kind. change (mtu_of (view st)) with (mtu_of st). destruct (a_kind a) eqn:K;
     try (rewrite er_payload by (rewrite K; discriminate);
          repeat match goal with |- context [if ?b then _ else _] => destruct b end; reflexivity);
     try (rewrite (er_lookup_id h a El) by (left; rewrite K; discriminate);
@@ -245,7 +416,9 @@ Proof.
   rewrite read_denied_view. destruct (read_denied st h) eqn:E; [reflexivity|].
   rewrite (er_lookup_id h a El) by (right; apply read_denied_spec; exact E).
   repeat match goal with |- context [if ?b then _ else _] => destruct b end; try reflexivity.
-  unfold blob_value_branch. apply read_value_answer_relabel.
+  unfold blob_value_branch. change (mtu_of (view st)) with (mtu_of st).
+  apply read_value_answer_view; [exact Ha|]. intros s0. rewrite val_at_view; [reflexivity|].
+  destruct (S h) eqn:Es; [|reflexivity]. destruct (Hsec h Es) as [H1 _]. apply read_denied_spec in E. congruence.
 Qed.
 
 Lemma read_by_type_view s e ty : h_read_by_type (view st) s e ty = relabel (h_read_by_type st s e ty) (view st).
@@ -296,37 +469,6 @@ End NI.
 
 (** * Static part of the database along a step *)
 
-Definition static_db (d1 d2 : db_t) : Prop := Forall2 static_eq d1 d2.
-
-Lemma static_db_refl d : static_db d d.
-Proof. induction d; constructor; [apply static_eq_refl|assumption]. Qed.
-Lemma static_db_trans d1 d2 d3 : static_db d1 d2 -> static_db d2 d3 -> static_db d1 d3.
-Proof.
-  intros H. revert d3. induction H; intros d3 H3; inversion H3; subst; constructor.
-  - eapply static_eq_trans; eauto.
-  - apply IHForall2. assumption.
-Qed.
-Lemma update_static h f db : (forall a, static_eq a (f a)) -> static_db db (update h f db).
-Proof.
-  intros Hf. induction db as [|x r IH]; cbn [update]; [constructor|].
-  destruct (a_handle x =? h); constructor; try apply static_eq_refl; try apply Hf; try apply static_db_refl; exact IH.
-Qed.
-Lemma set_value_static a x : static_eq a (set_value a x).
-Proof. unfold static_eq. cbn. tauto. Qed.
-Lemma set_cbs_static a n i : static_eq a (set_cbs a n i).
-Proof. unfold static_eq. cbn. tauto. Qed.
-
-Lemma lookup_static d1 d2 h : static_db d1 d2 ->
-  match lookup h d1, lookup h d2 with
-  | Some a, Some b => static_eq a b
-  | None, None => True
-  | _, _ => False
-  end.
-Proof.
-  induction 1 as [|a b r1 r2 E _ IH]; cbn [lookup]; [exact I|].
-  pose proof E as (Hh & _). rewrite <- Hh. destruct (a_handle a =? h); [exact E|exact IH].
-Qed.
-
 (** a state whose database has the same static part and the same link state *)
 Definition same_static (st st' : state) : Prop :=
   static_db (st_db st) (st_db st') /\ st_enc st' = st_enc st /\ st_auth st' = st_auth st.
@@ -363,35 +505,87 @@ Qed.
 Lemma hook_error_static st op opa h o : same_static st (r_state (hook_error st op opa h o)).
 Proof. rewrite hook_error_state. apply same_static_refl. Qed.
 
+Lemma app_set_static st d v hk : same_static st (r_state (app_set st d v hk)).
+Proof.
+  pose proof (app_set_frame st d v hk) as F.
+  split; [|split; [apply (fr_enc _ _ F)|apply (fr_auth _ _ F)]].
+  assert (Hdb : forall st1, app_db st d v st1 -> static_db (st_db st) (st_db st1)).
+  { intros st1 [->|(a & _ & _ & ->)]; [apply static_db_refl|]. apply update_static. intros. apply set_value_static. }
+  destruct (app_set_shape st d v hk) as [st1 H|st1 id H|st1 id H]; cbn [r_state done];
+    rewrite ?notify_via_db; apply Hdb, H.
+Qed.
+
+Lemma hook_act_static st hk act o st1 pd res : hook_act st hk act o = (st1, pd, res) -> same_static st st1.
+Proof.
+  unfold hook_act. destruct act as [[d v]|]; intros E; inversion E; subst; [apply app_set_static|apply same_static_refl].
+Qed.
+
+Lemma post_hook_static st hk act o out : same_static st (r_state (post_hook st hk act o out)).
+Proof.
+  unfold post_hook. destruct (hook_act st hk act o) as [[st1 pd] res] eqn:E.
+  pose proof (hook_act_static _ _ _ _ _ _ _ E) as H. destruct res as [o'|]; [destruct o'|]; exact H.
+Qed.
+
+Lemma read_value_answer_static st hk op opa h mk normal : same_static st (r_state (read_value_answer st hk op opa h mk normal)).
+Proof.
+  unfold read_value_answer. destruct (hook_act st hk (ha_read (h_acts hk)) (h_read hk)) as [[st1 pd] res] eqn:E.
+  pose proof (hook_act_static _ _ _ _ _ _ _ E) as H. destruct res as [o'|]; [|exact H].
+  destruct o' as [|x| | | | |g1 g2 g3|]; cbn [r_state done prepend]; try exact H; rewrite hook_error_state; exact H.
+Qed.
+
+Lemma read_req_static st hk h : same_static st (r_state (h_read_req V_fixed st hk h)).
+Proof.
+  unfold h_read_req. cbn [fx_read_default V_fixed].
+  destruct (h =? 0); [apply same_static_refl|].
+  destruct (lookup h (st_db st)) as [a|]; [|apply same_static_refl].
+  destruct (a_kind a); try apply same_static_refl.
+  destruct (read_denied st h); [apply same_static_refl|apply read_value_answer_static].
+Qed.
+
+Lemma read_blob_static st hk h off : same_static st (r_state (h_read_blob V_fixed st hk h off)).
+Proof.
+  unfold h_read_blob, blob_value_branch. cbn [fx_blob V_fixed].
+  destruct (h =? 0); [apply same_static_refl|].
+  destruct (lookup h (st_db st)) as [a|]; [|apply same_static_refl].
+  destruct (a_kind a);
+    repeat match goal with
+    | |- context [read_denied st h] => destruct (read_denied st h)
+    | |- context [off <? ?x] => destruct (off <? x)
+    | |- context [off =? ?x] => destruct (off =? x)
+    end; try apply same_static_refl; apply read_value_answer_static.
+Qed.
+
+Lemma store_static st h x : same_static st (with_db st (update h (fun a => set_value a x) (st_db st))).
+Proof. apply same_static_db, update_static. intros. apply set_value_static. Qed.
+
 Lemma write_value_static st hk op opa h val rsp : same_static st (r_state (write_value st hk op opa h val rsp)).
 Proof.
-  unfold write_value.
-  assert (S1 : forall x, same_static st (with_db st (update h (fun a => set_value a x) (st_db st)))).
-  { intros. apply same_static_db, update_static. intros. apply set_value_static. }
-  destruct (h_write hk) as [|x| | | | |g1 g2 g3|]; try apply hook_error_static.
-  - destruct (h_written hk) as [|y| | | | |k1 k2 k3|]; cbn [r_state done raise]; try apply S1;
-      try (rewrite hook_error_state; apply S1).
-    assert (S2 : same_static st (with_db (with_db st (update h (fun a => set_value a val) (st_db st)))
-              (update h (fun a => set_value a y) (st_db (with_db st (update h (fun a => set_value a val) (st_db st))))))).
-    { eapply same_static_trans; [apply S1|]. apply same_static_db, update_static. intros. apply set_value_static. }
-    destruct (h_written2 hk); exact S2.
-  - destruct (h_written hk); apply S1.
+  unfold write_value. cbv zeta.
+  dha ha_write st1 pd1 res1 E1. pose proof (hook_act_static _ _ _ _ _ _ _ E1) as S1.
+  destruct res1 as [o1|]; [|exact S1].
+  destruct o1 as [|x| | | | |g1 g2 g3|]; try (cbn [r_state prepend]; rewrite hook_error_state; exact S1).
+  - dha ha_written st3 pd3 res3 E3. pose proof (hook_act_static _ _ _ _ _ _ _ E3) as S3.
+    assert (S13 : same_static st st3) by (eapply same_static_trans; [exact S1|eapply same_static_trans; [apply store_static|exact S3]]).
+    destruct res3 as [o3|]; [|exact S13].
+    destruct o3 as [|y| | | | |k1 k2 k3|]; try exact S13; try (cbn [r_state prepend]; rewrite hook_error_state; exact S13).
+    eapply same_static_trans; [exact S13|]. eapply same_static_trans; [apply (store_static st3 h y)|apply post_hook_static].
+  - eapply same_static_trans; [exact S1|]. eapply same_static_trans; [apply (store_static st1 h x)|apply post_hook_static].
 Qed.
 
 Lemma cccd_effects_static st hk h newv record out : same_static st (r_state (cccd_effects st hk h newv record out)).
 Proof.
   unfold cccd_effects.
-  assert (S1 : same_static st (with_db st (update h (fun a => set_value a newv) (st_db st)))).
-  { apply same_static_db, update_static. intros. apply set_value_static. }
+  assert (S1 : same_static st (with_db st (update h (fun a => set_value a newv) (st_db st)))) by apply store_static.
   assert (S2 : forall d f, (forall c, static_eq c (f c)) ->
              same_static st (with_db (with_db st (update h (fun a => set_value a newv) (st_db st)))
                                      (update d f (update h (fun a => set_value a newv) (st_db st))))).
   { intros. eapply same_static_trans; [apply S1|]. apply same_static_db, update_static. assumption. }
+  assert (S3 : forall s1 subs, same_static st s1 -> same_static st (with_subs s1 subs)) by (intros s1 subs H; exact H).
   destruct (un_le16_2 newv) as [cfg|]; [|exact S1].
   destruct (owner_decl h (st_db st) None) as [d|]; [|exact S1].
-  destruct (cfg =? 1); [destruct record; destruct (h_sub hk); apply S2; intros; apply set_cbs_static|].
-  destruct (cfg =? 2); [destruct record; destruct (h_sub hk); apply S2; intros; apply set_cbs_static|].
-  destruct (cfg =? 0); [destruct (h_unsub hk); apply S2; intros; apply set_cbs_static|exact S1].
+  destruct (cfg =? 1); [destruct record; (eapply same_static_trans; [|apply post_hook_static]); try apply S3; apply S2; intros; apply set_cbs_static|].
+  destruct (cfg =? 2); [destruct record; (eapply same_static_trans; [|apply post_hook_static]); try apply S3; apply S2; intros; apply set_cbs_static|].
+  destruct (cfg =? 0); [(eapply same_static_trans; [|apply post_hook_static]); apply S3; apply S2; intros; apply set_cbs_static|exact S1].
 Qed.
 
 Lemma write_gen_static st hk is_cmd h val : same_static st (r_state (h_write_gen V_fixed st hk is_cmd h val)).
@@ -446,7 +640,7 @@ Lemma locked_static v st body : same_static (with_lock st true) (r_state (body (
   same_static st (r_state (locked v st body)).
 Proof.
   intros H. unfold locked. destruct (tx_locked st); [apply same_static_refl|].
-  destruct (r_exc (body (with_lock st true))); exact H.
+  destruct (r_exc (body (with_lock st true))) as [[]|]; exact H.
 Qed.
 
 Lemma handle_static st r hk : same_static st (r_state (handle V_fixed st r hk)).
@@ -457,8 +651,8 @@ Proof.
   - rewrite fbtv_state. apply same_static_refl.
   - rewrite read_by_type_state. apply same_static_refl.
   - rewrite read_by_type_state. apply same_static_refl.
-  - rewrite read_req_state. apply same_static_refl.
-  - rewrite read_blob_state. apply same_static_refl.
+  - apply read_req_static.
+  - apply read_blob_static.
   - destruct hs; [apply same_static_refl|]. apply locked_static, same_static_refl.
   - rewrite read_by_group_state. apply same_static_refl.
   - apply write_gen_static.
@@ -505,24 +699,94 @@ Proof.
   - rewrite (value_may_write_static _ _ _ Hs). exact H2.
 Qed.
 
-Lemma write_value_keeps st hk op opa h0 val rsp h :
-  h <> h0 -> value_at (r_state (write_value st hk op opa h0 val rsp)) h = value_at st h.
+Lemma hook_assigns_inv hk h : hook_assigns hk h = false ->
+  act_target (ha_read (h_acts hk)) h = false /\ act_target (ha_write (h_acts hk)) h = false
+  /\ act_target (ha_written (h_acts hk)) h = false /\ act_target (ha_written2 (h_acts hk)) h = false
+  /\ act_target (ha_sub (h_acts hk)) h = false /\ act_target (ha_unsub (h_acts hk)) h = false.
 Proof.
-  intros Hne. unfold write_value.
-  destruct (h_write hk) as [|x| | | | |g1 g2 g3|]; try (rewrite hook_error_state; reflexivity).
-  - destruct (h_written hk) as [|y| | | | |k1 k2 k3|]; cbn [r_state done raise];
-      try (rewrite hook_error_state); try (apply value_at_update_ne; exact Hne).
-    assert (E : value_at (with_db (with_db st (update h0 (fun a => set_value a val) (st_db st)))
-                  (update h0 (fun a => set_value a y) (st_db (with_db st (update h0 (fun a => set_value a val) (st_db st)))))) h = value_at st h).
-    { rewrite value_at_update_ne by exact Hne. apply value_at_update_ne; exact Hne. }
-    destruct (h_written2 hk); exact E.
-  - destruct (h_written hk); apply value_at_update_ne; exact Hne.
+  unfold hook_assigns. intros H. repeat (apply orb_false_iff in H; destruct H as [H ?]). repeat split; assumption.
+Qed.
+
+Lemma app_set_keeps_val st d v hk h : d + 1 <> h -> value_at (r_state (app_set st d v hk)) h = value_at st h.
+Proof.
+  intros Hne.
+  assert (Hdb : forall st1, app_db st d v st1 -> value_at st1 h = value_at st h).
+  { intros st1 [->|(a & _ & _ & ->)]; [reflexivity|]. apply value_at_update_ne. auto. }
+  assert (Hn : forall s1 id o mk vh x, value_at (r_state (notify_via s1 id o mk vh x)) h = value_at s1 h).
+  { intros. unfold value_at. rewrite notify_via_db. reflexivity. }
+  destruct (app_set_shape st d v hk) as [st1 H|st1 id H|st1 id H]; cbn [r_state done]; rewrite ?Hn; apply Hdb, H.
+Qed.
+
+Lemma hook_act_keeps_val st hk act o st1 pd res h :
+  hook_act st hk act o = (st1, pd, res) -> act_target act h = false -> value_at st1 h = value_at st h.
+Proof.
+  unfold hook_act. destruct act as [[d v]|]; intros E Ht; inversion E; subst; [|reflexivity].
+  apply app_set_keeps_val. cbn [act_target] in Ht. apply N.eqb_neq in Ht. exact Ht.
+Qed.
+
+Lemma post_hook_keeps_val st hk act o out h :
+  act_target act h = false -> value_at (r_state (post_hook st hk act o out)) h = value_at st h.
+Proof.
+  intros Ht. unfold post_hook. destruct (hook_act st hk act o) as [[st1 pd] res] eqn:E.
+  pose proof (hook_act_keeps_val _ _ _ _ _ _ _ h E Ht) as H. destruct res as [o'|]; [destruct o'|]; exact H.
+Qed.
+
+Lemma read_value_answer_keeps_val st hk op opa h0 mk normal h :
+  act_target (ha_read (h_acts hk)) h = false ->
+  value_at (r_state (read_value_answer st hk op opa h0 mk normal)) h = value_at st h.
+Proof.
+  intros Ht. unfold read_value_answer. destruct (hook_act st hk (ha_read (h_acts hk)) (h_read hk)) as [[st1 pd] res] eqn:E.
+  pose proof (hook_act_keeps_val _ _ _ _ _ _ _ h E Ht) as H. destruct res as [o'|]; [|exact H].
+  destruct o' as [|x| | | | |g1 g2 g3|]; cbn [r_state done prepend]; try exact H; rewrite hook_error_state; exact H.
+Qed.
+
+Lemma read_req_keeps_val st hk h0 h : act_target (ha_read (h_acts hk)) h = false ->
+  value_at (r_state (h_read_req V_fixed st hk h0)) h = value_at st h.
+Proof.
+  intros Ht. unfold h_read_req. cbn [fx_read_default V_fixed].
+  destruct (h0 =? 0); [reflexivity|].
+  destruct (lookup h0 (st_db st)) as [a|]; [|reflexivity].
+  destruct (a_kind a); try reflexivity.
+  destruct (read_denied st h0); [reflexivity|apply read_value_answer_keeps_val, Ht].
+Qed.
+
+Lemma read_blob_keeps_val st hk h0 off h : act_target (ha_read (h_acts hk)) h = false ->
+  value_at (r_state (h_read_blob V_fixed st hk h0 off)) h = value_at st h.
+Proof.
+  intros Ht. unfold h_read_blob, blob_value_branch. cbn [fx_blob V_fixed].
+  destruct (h0 =? 0); [reflexivity|].
+  destruct (lookup h0 (st_db st)) as [a|]; [|reflexivity].
+  destruct (a_kind a);
+    repeat match goal with
+    | |- context [read_denied st h0] => destruct (read_denied st h0)
+    | |- context [off <? ?x] => destruct (off <? x)
+    | |- context [off =? ?x] => destruct (off =? x)
+    end; try reflexivity; apply read_value_answer_keeps_val, Ht.
+Qed.
+
+Lemma write_value_keeps st hk op opa h0 val rsp h :
+  h <> h0 -> hook_assigns hk h = false ->
+  value_at (r_state (write_value st hk op opa h0 val rsp)) h = value_at st h.
+Proof.
+  intros Hne Ha. apply hook_assigns_inv in Ha as (_ & T1 & T2 & T3 & _).
+  unfold write_value. cbv zeta.
+  dha ha_write st1 pd1 res1 E1. pose proof (hook_act_keeps_val _ _ _ _ _ _ _ h E1 T1) as V1.
+  destruct res1 as [o1|]; [|exact V1].
+  destruct o1 as [|x| | | | |g1 g2 g3|]; try (cbn [r_state prepend]; rewrite hook_error_state; exact V1).
+  - dha ha_written st3 pd3 res3 E3. pose proof (hook_act_keeps_val _ _ _ _ _ _ _ h E3 T2) as V3.
+    rewrite value_at_update_ne in V3 by exact Hne.
+    assert (V13 : value_at st3 h = value_at st h) by congruence.
+    destruct res3 as [o3|]; [|exact V13].
+    destruct o3 as [|y| | | | |k1 k2 k3|]; try exact V13; try (cbn [r_state prepend]; rewrite hook_error_state; exact V13).
+    rewrite post_hook_keeps_val by exact T3. rewrite value_at_update_ne by exact Hne. exact V13.
+  - rewrite post_hook_keeps_val by exact T2. rewrite value_at_update_ne by exact Hne. exact V1.
 Qed.
 
 Lemma cccd_effects_keeps st hk h0 newv record out h :
-  h <> h0 -> value_at (r_state (cccd_effects st hk h0 newv record out)) h = value_at st h.
+  h <> h0 -> hook_assigns hk h = false ->
+  value_at (r_state (cccd_effects st hk h0 newv record out)) h = value_at st h.
 Proof.
-  intros Hne. unfold cccd_effects.
+  intros Hne Ha. apply hook_assigns_inv in Ha as (_ & _ & _ & _ & T5 & T6). unfold cccd_effects.
   pose proof (value_at_update_ne st h0 newv h Hne) as E1.
   assert (E2 : forall d n i, value_at (with_db (with_db st (update h0 (fun a => set_value a newv) (st_db st)))
                   (update d (fun c => set_cbs c (n c) (i c)) (update h0 (fun a => set_value a newv) (st_db st)))) h = value_at st h).
@@ -532,24 +796,25 @@ Proof.
   destruct (un_le16_2 newv) as [cfg|]; [|exact E1].
   destruct (owner_decl h0 (st_db st) None) as [d|]; [|exact E1].
   destruct (cfg =? 1).
-  { destruct record; destruct (h_sub hk); cbn [r_state done raise]; apply (E2 d (fun _ => Some (i_id (st_cur st))) a_icb). }
+  { destruct record; rewrite post_hook_keeps_val by exact T5; apply (E2 d (fun _ => Some (i_id (st_cur st))) a_icb). }
   destruct (cfg =? 2).
-  { destruct record; destruct (h_sub hk); cbn [r_state done raise]; apply (E2 d a_ncb (fun _ => Some (i_id (st_cur st)))). }
+  { destruct record; rewrite post_hook_keeps_val by exact T5; apply (E2 d a_ncb (fun _ => Some (i_id (st_cur st)))). }
   destruct (cfg =? 0); [|exact E1].
-  destruct (h_unsub hk); cbn [r_state done raise]; apply (E2 d (fun _ => None) (fun _ => None)).
+  rewrite post_hook_keeps_val by exact T6. apply (E2 d (fun _ => None) (fun _ => None)).
 Qed.
 
 Lemma write_gen_keeps st hk is_cmd h0 val h :
-  protected st h -> value_at (r_state (h_write_gen V_fixed st hk is_cmd h0 val)) h = value_at st h.
+  protected st h -> hook_assigns hk h = false ->
+  value_at (r_state (h_write_gen V_fixed st hk is_cmd h0 val)) h = value_at st h.
 Proof.
-  intros [Hv Hw]. unfold h_write_gen. cbn [fx_write_default fx_sub_record V_fixed].
+  intros [Hv Hw] Hha. unfold h_write_gen. cbn [fx_write_default fx_sub_record V_fixed].
   destruct (h0 =? 0); [reflexivity|].
   destruct (lookup h0 (st_db st)) as [a|] eqn:El; [|reflexivity].
   destruct (a_kind a) eqn:K; try (destruct is_cmd; reflexivity).
   - destruct (write_denied st h0 E_NOT_FOUND) eqn:E; [reflexivity|].
-    apply write_value_keeps. intros ->. apply write_denied_spec in E. congruence.
+    apply write_value_keeps; [|exact Hha]. intros ->. apply write_denied_spec in E. congruence.
   - match goal with |- context [if ?b then cccd_effects _ _ _ _ _ _ else _] => destruct b end; [|reflexivity].
-    apply cccd_effects_keeps. intros ->. unfold is_value_handle in Hv. rewrite El, K in Hv. discriminate.
+    apply cccd_effects_keeps; [|exact Hha]. intros ->. unfold is_value_handle in Hv. rewrite El, K in Hv. discriminate.
 Qed.
 
 Lemma apply_writes_keeps h0 ws h : h <> h0 -> forall db, lookup h (fst (apply_writes h0 ws db)) = lookup h db.
@@ -587,15 +852,17 @@ Lemma locked_keeps v st body h :
   value_at (r_state (locked v st body)) h = value_at st h.
 Proof.
   intros H. unfold locked. destruct (tx_locked st); [reflexivity|].
-  destruct (r_exc (body (with_lock st true))); exact H.
+  destruct (r_exc (body (with_lock st true))) as [[]|]; exact H.
 Qed.
 
-(** the value of a characteristic changes across a request only if the client may write it *)
+(** the value of a characteristic changes across a request only if the client may write it (or a
+    hook of the application assigns it itself) *)
 Lemma write_needs_permission st r hk h :
-  is_value_handle st h = true -> value_may_write st h = false ->
+  is_value_handle st h = true -> value_may_write st h = false -> hook_assigns hk h = false ->
   value_at (fst (server_step st r hk)) h = value_at st h.
 Proof.
-  intros Hv Hw. assert (Hp : protected (with_lock st true) h) by (split; assumption).
+  intros Hv Hw Hha. assert (Hp : protected (with_lock st true) h) by (split; assumption).
+  pose proof (hook_assigns_inv hk h Hha) as (T1 & _).
   unfold server_step, server_step_v. cbn [fst].
   destruct r; cbn [handle fx_rbt128 V_fixed]; try reflexivity; try apply locked_keeps.
   - unfold h_mtu. cbn [r_state done]. destruct (23 <=? mtu); reflexivity.
@@ -603,12 +870,12 @@ Proof.
   - rewrite fbtv_state. reflexivity.
   - rewrite read_by_type_state. reflexivity.
   - rewrite read_by_type_state. reflexivity.
-  - rewrite read_req_state. reflexivity.
-  - rewrite read_blob_state. reflexivity.
+  - apply read_req_keeps_val, T1.
+  - apply read_blob_keeps_val, T1.
   - destruct hs; [reflexivity|]. apply locked_keeps. reflexivity.
   - rewrite read_by_group_state. reflexivity.
-  - apply write_gen_keeps. exact Hp.
-  - apply write_gen_keeps. exact Hp.
+  - apply write_gen_keeps; [exact Hp|exact Hha].
+  - apply write_gen_keeps; [exact Hp|exact Hha].
   - unfold h_prepare. destruct (lookup h0 _); reflexivity.
   - unfold h_execute. cbn [fx_exec_clear fx_exec_flags V_fixed].
     destruct (flags =? 0); [reflexivity|]. destruct (flags =? 1); [|reflexivity].
@@ -619,8 +886,6 @@ Qed.
 
 (** * Non-interference: every handler commutes with the erasure of unreadable values *)
 
-Definition map_state (f : state -> state) (r : hres) : hres := mkRes (f (r_state r)) (r_out r) (r_exc r).
-
 Section NI2.
 Variable S : N -> bool.
 Notation er := (er S).
@@ -628,12 +893,6 @@ Notation view := (view S).
 
 Lemma relabel_map_state r st : r_state r = st -> relabel r (view st) = map_state view r.
 Proof. intros <-. reflexivity. Qed.
-
-Lemma er_set_cbs a n i : er (set_cbs a n i) = set_cbs (er a) n i.
-Proof. unfold Model.er. cbn. destruct (S (a_handle a)); reflexivity. Qed.
-
-Lemma er_set_value_public a x : S (a_handle a) = false -> er (set_value a x) = set_value (er a) x.
-Proof. unfold Model.er. cbn. intros ->. reflexivity. Qed.
 
 (** storing a value at a handle outside S commutes with the view *)
 Lemma store_view st h x : S h = false ->
@@ -658,21 +917,55 @@ Qed.
 Lemma hook_error_view st op opa h o : hook_error (view st) op opa h o = map_state view (hook_error st op opa h o).
 Proof. destruct o as [|x| | | | |g1 g2 g3|]; reflexivity. Qed.
 
-Lemma write_value_view st hk op opa h val rsp : S h = false ->
-  write_value (view st) hk op opa h val rsp = map_state view (write_value st hk op opa h val rsp).
+Definition ni_ok (st : state) : Prop := sorted_from 0 (st_db st) = true /\ secret_ok st S.
+
+Lemma ni_ok_static st st' : same_static st st' -> ni_ok st -> ni_ok st'.
 Proof.
-  intros Hs. unfold write_value.
-  destruct (h_write hk) as [|x| | | | |g1 g2 g3|]; try apply hook_error_view.
-  - rewrite (store_view st h val Hs).
-    destruct (h_written hk) as [|y| | | | |k1 k2 k3|]; try reflexivity.
-    + rewrite (store_view _ h y Hs). destruct (h_written2 hk); reflexivity.
-  - rewrite (store_view st h x Hs). destruct (h_written hk); reflexivity.
+  intros Hs [H1 H2]. split; [|eapply secret_ok_static; eauto].
+  destruct Hs as (Hd & _). rewrite <- (static_sorted _ _ Hd). exact H1.
 Qed.
 
-Lemma cccd_effects_view st hk h newv record out : S h = false ->
+Lemma acts_avoid_inv hk : acts_avoid S hk = true ->
+  act_avoids S (ha_read (h_acts hk)) = true /\ act_avoids S (ha_write (h_acts hk)) = true
+  /\ act_avoids S (ha_written (h_acts hk)) = true /\ act_avoids S (ha_written2 (h_acts hk)) = true
+  /\ act_avoids S (ha_sub (h_acts hk)) = true /\ act_avoids S (ha_unsub (h_acts hk)) = true.
+Proof. unfold acts_avoid. cbv zeta. intros H. repeat (apply andb_true_iff in H as [H ?]). repeat split; assumption. Qed.
+
+Lemma post_hook_view st hk act o out : ni_ok st -> act_avoids S act = true ->
+  post_hook (view st) hk act o out = map_state view (post_hook st hk act o out).
+Proof.
+  intros [Hs Hsec] Ha. unfold post_hook. rewrite (hook_act_view S st Hs Hsec hk act o Ha).
+  destruct (hook_act st hk act o) as [[st1 pd] res]. destruct res as [o'|]; [destruct o'|]; reflexivity.
+Qed.
+
+Lemma write_value_view st hk op opa h val rsp : S h = false -> ni_ok st -> acts_avoid S hk = true ->
+  write_value (view st) hk op opa h val rsp = map_state view (write_value st hk op opa h val rsp).
+Proof.
+  intros Hsh Hok Ha. apply acts_avoid_inv in Ha as (_ & A1 & A2 & A3 & _).
+  destruct Hok as [Hs Hsec]. unfold write_value. cbv zeta.
+  rewrite (hook_act_view S st Hs Hsec hk _ (h_write hk) A1).
+  destruct (hook_act st hk (ha_write (h_acts hk)) (h_write hk)) as [[st1 pd1] res1] eqn:E1.
+  pose proof (ni_ok_static _ _ (hook_act_static _ _ _ _ _ _ _ E1) (conj Hs Hsec)) as Hok1.
+  destruct res1 as [o1|]; [|reflexivity].
+  destruct o1 as [|x| | | | |g1 g2 g3|]; try (rewrite hook_error_view; reflexivity).
+  - rewrite (store_view st1 h val Hsh).
+    pose proof (ni_ok_static _ _ (store_static st1 h val) Hok1) as [Hs2 Hsec2].
+    rewrite (hook_act_view S _ Hs2 Hsec2 hk _ (h_written hk) A2).
+    destruct (hook_act (with_db st1 (update h (fun a => set_value a val) (st_db st1))) hk (ha_written (h_acts hk)) (h_written hk))
+      as [[st3 pd3] res3] eqn:E3.
+    pose proof (ni_ok_static _ _ (hook_act_static _ _ _ _ _ _ _ E3) (conj Hs2 Hsec2)) as Hok3.
+    destruct res3 as [o3|]; [|reflexivity].
+    destruct o3 as [|y| | | | |k1 k2 k3|]; try reflexivity; try (rewrite hook_error_view; reflexivity).
+    rewrite (store_view st3 h y Hsh).
+    apply post_hook_view; [apply (ni_ok_static _ _ (store_static st3 h y) Hok3)|exact A3].
+  - rewrite (store_view st1 h x Hsh).
+    apply post_hook_view; [apply (ni_ok_static _ _ (store_static st1 h x) Hok1)|exact A2].
+Qed.
+
+Lemma cccd_effects_view st hk h newv record out : S h = false -> ni_ok st -> acts_avoid S hk = true ->
   cccd_effects (view st) hk h newv record out = map_state view (cccd_effects st hk h newv record out).
 Proof.
-  intros Hs. unfold cccd_effects.
+  intros Hs Hok Ha. apply acts_avoid_inv in Ha as (_ & _ & _ & _ & A5 & A6). unfold cccd_effects.
   rewrite (store_view st h newv Hs).
   change (st_db (view st)) with (map er (st_db st)). rewrite owner_decl_er.
   destruct (un_le16_2 newv) as [cfg|]; [|reflexivity].
@@ -683,34 +976,47 @@ Proof.
   { pose proof (store_view st h newv Hs) as E. apply (f_equal st_db) in E. exact E. }
   rewrite Edb.
   change (i_id (st_cur (view st))) with (i_id (st_cur st)).
+  assert (Hok1 : ni_ok st1) by (apply (ni_ok_static _ _ (store_static st h newv) Hok)).
+  assert (Hcb : forall f subs, (forall c, static_eq c (f c)) ->
+            ni_ok (with_subs (with_db st1 (update d f (st_db st1))) subs)).
+  { intros f subs Hf. apply (ni_ok_static st1); [|exact Hok1]. split; [|auto]. apply update_static, Hf. }
   destruct (cfg =? 1).
   { rewrite (cbs_view st1 d (fun _ => Some (i_id (st_cur st))) a_icb) by (intros; rewrite ?er_icb; reflexivity).
-    destruct record; destruct (h_sub hk); reflexivity. }
+    destruct record;
+      repeat match goal with |- context [with_subs (view ?x) ?l] => change (with_subs (view x) l) with (view (with_subs x l)) end;
+      (apply post_hook_view; [|exact A5]);
+      first [apply (Hcb (fun c => set_cbs c (Some (i_id (st_cur st))) (a_icb c))); intros; apply set_cbs_static
+            |apply (ni_ok_static st1); [split; [apply update_static; intros; apply set_cbs_static|auto]|exact Hok1]]. }
   destruct (cfg =? 2).
   { rewrite (cbs_view st1 d a_ncb (fun _ => Some (i_id (st_cur st)))) by (intros; rewrite ?er_ncb; reflexivity).
-    destruct record; destruct (h_sub hk); reflexivity. }
+    destruct record;
+      repeat match goal with |- context [with_subs (view ?x) ?l] => change (with_subs (view x) l) with (view (with_subs x l)) end;
+      (apply post_hook_view; [|exact A5]);
+      first [apply (Hcb (fun c => set_cbs c (a_ncb c) (Some (i_id (st_cur st))))); intros; apply set_cbs_static
+            |apply (ni_ok_static st1); [split; [apply update_static; intros; apply set_cbs_static|auto]|exact Hok1]]. }
   destruct (cfg =? 0); [|reflexivity].
   rewrite (cbs_view st1 d (fun _ => None) (fun _ => None)) by reflexivity.
-  destruct (h_unsub hk); reflexivity.
+  repeat match goal with |- context [with_subs (view ?x) ?l] => change (with_subs (view x) l) with (view (with_subs x l)) end.
+  apply post_hook_view; [|exact A6]. apply (Hcb (fun c => set_cbs c None None)). intros; apply set_cbs_static.
 Qed.
 
 Lemma write_gen_view st hk is_cmd h val :
-  wf_state st = true -> secret_ok st S -> S h && value_may_write st h = false ->
+  ni_ok st -> acts_avoid S hk = true -> S h && value_may_write st h = false ->
   h_write_gen V_fixed (view st) hk is_cmd h val = map_state view (h_write_gen V_fixed st hk is_cmd h val).
 Proof.
-  intros Hwf Hsec Hal. unfold h_write_gen. cbn [fx_write_default fx_sub_record V_fixed].
+  intros Hok Ha Hal. pose proof Hok as [Hsorted Hsec]. unfold h_write_gen. cbn [fx_write_default fx_sub_record V_fixed].
   destruct (h =? 0); [reflexivity|].
   change (st_db (view st)) with (map er (st_db st)). rewrite lookup_er.
   destruct (lookup h (st_db st)) as [a|] eqn:El; cbn [option_map]; [|reflexivity].
   rewrite er_kind. destruct (a_kind a) eqn:K; try (destruct is_cmd; reflexivity).
   - rewrite write_denied_view. destruct (write_denied st h E_NOT_FOUND) eqn:E; [reflexivity|].
-    apply write_value_view. apply write_denied_spec in E. rewrite E, andb_true_r in Hal. exact Hal.
+    apply write_value_view; try assumption. apply write_denied_spec in E. rewrite E, andb_true_r in Hal. exact Hal.
   - assert (Hs : S h = false).
     { destruct (S h) eqn:Es; [|reflexivity]. destruct (Hsec h Es) as [_ H2]. specialize (H2 a El). congruence. }
     assert (Ea : er a = a) by (apply er_public; apply lookup_in in El as [_ ->]; exact Hs).
     rewrite Ea.
     match goal with |- context [if ?b then cccd_effects _ _ _ _ _ _ else _] => destruct b end; [|reflexivity].
-    apply cccd_effects_view. exact Hs.
+    apply cccd_effects_view; assumption.
 Qed.
 
 Lemma prepare_view st h off val : h_prepare (view st) h off val = map_state view (h_prepare st h off val).
@@ -775,26 +1081,29 @@ Lemma locked_view st (body : state -> hres) :
 Proof.
   intros H. unfold locked. change (tx_locked (view st)) with (tx_locked st).
   destruct (tx_locked st); [reflexivity|]. rewrite H. cbn [r_exc r_state r_out map_state].
-  destruct (r_exc (body (with_lock st true))); reflexivity.
+  destruct (r_exc (body (with_lock st true))) as [[]|]; reflexivity.
 Qed.
 
 (** the whole dispatch commutes with the view *)
 Lemma handle_view st r hk :
   wf_state st = true -> secret_ok st S -> queue_clean st S -> ni_allowed st S r = true ->
+  acts_avoid S hk = true ->
   handle V_fixed (view st) r hk = map_state view (handle V_fixed st r hk).
 Proof.
-  intros Hwf Hsec Hq Hal.
-  assert (Hwf' : wf_state (with_lock st true) = true) by exact Hwf.
+  intros Hwf Hsec Hq Hal Ha.
+  assert (Hs' : sorted_from 0 (st_db (with_lock st true)) = true) by (apply (db_sorted st Hwf)).
   assert (Hsec' : secret_ok (with_lock st true) S) by exact Hsec.
+  assert (Hok' : ni_ok (with_lock st true)) by (split; assumption).
+  pose proof (acts_avoid_inv hk Ha) as (A1 & _).
   destruct r; cbn [handle fx_rbt128 V_fixed]; try reflexivity; try apply locked_view;
     change (with_lock (view st) true) with (view (with_lock st true)).
   - unfold h_mtu. destruct (23 <=? mtu); reflexivity.
   - rewrite (find_info_view S _ s e). apply relabel_map_state, find_info_state.
-  - rewrite (fbtv_view S _ Hwf' Hsec'). apply relabel_map_state, fbtv_state.
+  - rewrite (fbtv_view S _ Hs' Hsec'). apply relabel_map_state, fbtv_state.
   - rewrite (read_by_type_view S _ s e). apply relabel_map_state, read_by_type_state.
   - rewrite (read_by_type_view S _ s e). apply relabel_map_state, read_by_type_state.
-  - rewrite (read_req_view S _ Hsec'). apply relabel_map_state, read_req_state.
-  - rewrite (read_blob_view S _ Hsec'). apply relabel_map_state, read_blob_state.
+  - apply (read_req_view S _ Hs' Hsec' hk h A1).
+  - apply (read_blob_view S _ Hs' Hsec' hk h off A1).
   - destruct hs; [reflexivity|]. apply locked_view. reflexivity.
   - rewrite (read_by_group_view S _ s e). apply relabel_map_state, read_by_group_state.
   - apply write_gen_view; try assumption. cbn [ni_allowed] in Hal. apply negb_true_iff in Hal. exact Hal.
@@ -810,13 +1119,58 @@ End NI2.
 
 Definition qh (st : state) : list N := map fst (i_queues (st_cur st)).
 
+Lemma hook_act_qh st hk act o st1 pd res : hook_act st hk act o = (st1, pd, res) -> qh st1 = qh st.
+Proof.
+  intros E. destruct (hook_act_spec _ _ _ _ _ _ _ E) as (F & _). unfold qh. rewrite (fr_queues _ _ F). reflexivity.
+Qed.
+
+Lemma post_hook_qh st hk act o out : qh (r_state (post_hook st hk act o out)) = qh st.
+Proof.
+  unfold post_hook. destruct (hook_act st hk act o) as [[st1 pd] res] eqn:E.
+  pose proof (hook_act_qh _ _ _ _ _ _ _ E) as H. destruct res as [o'|]; [destruct o'|]; exact H.
+Qed.
+
+Lemma read_value_answer_qh st hk op opa h mk normal : qh (r_state (read_value_answer st hk op opa h mk normal)) = qh st.
+Proof.
+  unfold read_value_answer. destruct (hook_act st hk (ha_read (h_acts hk)) (h_read hk)) as [[st1 pd] res] eqn:E.
+  pose proof (hook_act_qh _ _ _ _ _ _ _ E) as H. destruct res as [o'|]; [|exact H].
+  destruct o' as [|x| | | | |g1 g2 g3|]; cbn [r_state done prepend]; try exact H; rewrite hook_error_state; exact H.
+Qed.
+
+Lemma read_req_qh st hk h : qh (r_state (h_read_req V_fixed st hk h)) = qh st.
+Proof.
+  unfold h_read_req. cbn [fx_read_default V_fixed].
+  destruct (h =? 0); [reflexivity|].
+  destruct (lookup h (st_db st)) as [a|]; [|reflexivity].
+  destruct (a_kind a); try reflexivity.
+  destruct (read_denied st h); [reflexivity|apply read_value_answer_qh].
+Qed.
+
+Lemma read_blob_qh st hk h off : qh (r_state (h_read_blob V_fixed st hk h off)) = qh st.
+Proof.
+  unfold h_read_blob, blob_value_branch. cbn [fx_blob V_fixed].
+  destruct (h =? 0); [reflexivity|].
+  destruct (lookup h (st_db st)) as [a|]; [|reflexivity].
+  destruct (a_kind a);
+    repeat match goal with
+    | |- context [read_denied st h] => destruct (read_denied st h)
+    | |- context [off <? ?x] => destruct (off <? x)
+    | |- context [off =? ?x] => destruct (off =? x)
+    end; try reflexivity; apply read_value_answer_qh.
+Qed.
+
 Lemma write_value_qh st hk op opa h val rsp : qh (r_state (write_value st hk op opa h val rsp)) = qh st.
 Proof.
-  unfold write_value.
-  destruct (h_write hk) as [|x| | | | |g1 g2 g3|]; try (rewrite hook_error_state; reflexivity).
-  - destruct (h_written hk) as [|y| | | | |k1 k2 k3|]; try reflexivity; try (cbn [r_state]; rewrite hook_error_state; reflexivity).
-    destruct (h_written2 hk); reflexivity.
-  - destruct (h_written hk); reflexivity.
+  unfold write_value. cbv zeta.
+  dha ha_write st1 pd1 res1 E1. pose proof (hook_act_qh _ _ _ _ _ _ _ E1) as Q1.
+  destruct res1 as [o1|]; [|exact Q1].
+  destruct o1 as [|x| | | | |g1 g2 g3|]; try (cbn [r_state prepend]; rewrite hook_error_state; exact Q1).
+  - dha ha_written st3 pd3 res3 E3. pose proof (hook_act_qh _ _ _ _ _ _ _ E3) as Q3.
+    assert (Q13 : qh st3 = qh st) by (rewrite Q3; exact Q1).
+    destruct res3 as [o3|]; [|exact Q13].
+    destruct o3 as [|y| | | | |k1 k2 k3|]; try exact Q13; try (cbn [r_state prepend]; rewrite hook_error_state; exact Q13).
+    rewrite post_hook_qh. exact Q13.
+  - rewrite post_hook_qh. exact Q1.
 Qed.
 
 Lemma cccd_effects_qh st hk h newv record out : qh (r_state (cccd_effects st hk h newv record out)) = qh st.
@@ -824,9 +1178,9 @@ Proof.
   unfold cccd_effects.
   destruct (un_le16_2 newv) as [cfg|]; [|reflexivity].
   destruct (owner_decl h (st_db st) None) as [d|]; [|reflexivity].
-  destruct (cfg =? 1); [destruct record; destruct (h_sub hk); reflexivity|].
-  destruct (cfg =? 2); [destruct record; destruct (h_sub hk); reflexivity|].
-  destruct (cfg =? 0); [destruct (h_unsub hk); reflexivity|reflexivity].
+  destruct (cfg =? 1); [destruct record; rewrite post_hook_qh; reflexivity|].
+  destruct (cfg =? 2); [destruct record; rewrite post_hook_qh; reflexivity|].
+  destruct (cfg =? 0); [rewrite post_hook_qh; reflexivity|reflexivity].
 Qed.
 
 Lemma write_gen_qh st hk is_cmd h val : qh (r_state (h_write_gen V_fixed st hk is_cmd h val)) = qh st.
@@ -869,7 +1223,7 @@ Lemma locked_qh_incl v st body extra :
   incl (qh (r_state (locked v st body))) (extra ++ qh st).
 Proof.
   intros H. unfold locked. destruct (tx_locked st); [apply incl_appr, incl_refl|].
-  destruct (r_exc (body (with_lock st true))); exact H.
+  destruct (r_exc (body (with_lock st true))) as [[]|]; exact H.
 Qed.
 
 Definition prep_handle (r : att_request) : list N := match r with PrepareWrite h _ _ => [h] | _ => [] end.
@@ -883,8 +1237,8 @@ Proof.
   - rewrite fbtv_state. apply incl_refl.
   - rewrite read_by_type_state. apply incl_refl.
   - rewrite read_by_type_state. apply incl_refl.
-  - rewrite read_req_state. apply incl_refl.
-  - rewrite read_blob_state. apply incl_refl.
+  - rewrite read_req_qh. apply incl_refl.
+  - rewrite read_blob_qh. apply incl_refl.
   - destruct hs; [apply incl_refl|]. unfold locked. destruct (tx_locked st); apply incl_refl.
   - rewrite read_by_group_state. apply incl_refl.
   - rewrite write_gen_qh. apply incl_refl.
@@ -952,22 +1306,21 @@ Qed.
 (** Two states that differ only in values of characteristics the client may not read answer every
     session without an authorised write to such a characteristic identically. *)
 Lemma non_interference (s : session) : forall st1 st2,
-  wf_state st1 = true -> wf_state st2 = true -> tx_locked st1 = false ->
+  wf_state st1 = true -> wf_state st2 = true ->
   view st1 = view st2 -> secret_ok st1 S -> queue_clean st1 S ->
   inputs_ok st1 s -> session_allowed st1 S s ->
   responses st1 s = responses st2 s.
 Proof.
-  induction s as [|[r hk] t IH]; intros st1 st2 W1 W2 L1 Ev Sec Qc Hin Hal; cbn [responses]; [reflexivity|].
-  cbn [inputs_ok session_allowed fst snd] in *. destruct Hin as (Hr & Hh & Hin). destruct Hal as (Ha & Hal).
+  induction s as [|[r hk] t IH]; intros st1 st2 W1 W2 Ev Sec Qc Hin Hal; cbn [responses]; [reflexivity|].
+  cbn [inputs_ok session_allowed fst snd] in *. destruct Hin as (Hr & Hh & Hin). destruct Hal as (Ha & Haa & Hal).
   pose proof (view_eq_static _ _ Ev) as Hs.
   assert (Ecur : st_cur st2 = st_cur st1) by (apply (f_equal st_cur) in Ev; cbn in Ev; congruence).
-  assert (L2 : tx_locked st2 = false) by (unfold tx_locked; rewrite Ecur; exact L1).
   assert (Sec2 : secret_ok st2 S) by (eapply secret_ok_static; eauto).
   assert (Qc2 : queue_clean st2 S) by (eapply queue_clean_static; eauto).
   assert (Ha2 : ni_allowed st2 S r = true) by (rewrite (ni_allowed_static _ _ _ Hs); exact Ha).
   assert (Hr2 : wf_request (mtu_of st2) r = true) by (unfold mtu_of; rewrite Ecur; exact Hr).
-  pose proof (handle_view S st1 r hk W1 Sec Qc Ha) as V1.
-  pose proof (handle_view S st2 r hk W2 Sec2 Qc2 Ha2) as V2.
+  pose proof (handle_view S st1 r hk W1 Sec Qc Ha Haa) as V1.
+  pose proof (handle_view S st2 r hk W2 Sec2 Qc2 Ha2 Haa) as V2.
   rewrite Ev in V1. rewrite V2 in V1.
   unfold server_step, server_step_v, session_step, server_step, server_step_v. cbn [fst snd].
   f_equal.
@@ -975,7 +1328,6 @@ Proof.
   - apply IH.
     + apply (step_wf st1 r hk W1 Hr Hh).
     + apply (step_wf st2 r hk W2 Hr2 Hh).
-    + apply handle_unlocked, L1.
     + apply (f_equal r_state) in V1. cbn in V1. congruence.
     + eapply secret_ok_static; [apply handle_static|exact Sec].
     + apply queue_clean_step; assumption.
@@ -1022,16 +1374,6 @@ Proof.
 Qed.
 
 (** the found CCCD really is a CCCD owned by [d] *)
-Lemma cccd_handle_spec db d hc : cccd_handle db d = Some hc ->
-  exists x, In x db /\ a_handle x = hc /\ a_kind x = KCccd /\ owner_decl hc db None = Some d.
-Proof.
-  unfold cccd_handle. destruct (find _ db) as [x|] eqn:E; [|discriminate]. intros H. inversion H; subst.
-  apply find_some in E as [Hin Hp]. apply andb_true_iff in Hp as [Hk Ho].
-  exists x. repeat split; try assumption.
-  - destruct (a_kind x); try discriminate. reflexivity.
-  - destruct (owner_decl (a_handle x) db None) as [o|]; [|discriminate]. apply N.eqb_eq in Ho. congruence.
-Qed.
-
 (** configuration of a characteristic is not affected by changing a value that is not its CCCD's *)
 Lemma cfg_of_update db d h f :
   sorted_from 0 db = true ->
@@ -1156,22 +1498,221 @@ Proof.
   intros H0 Hk. split; [|auto]. cbn [st_db with_db]. eapply vo_update_value; eauto. rewrite Hk. discriminate.
 Qed.
 
-Lemma write_value_keeps_inv st hk op opa h val rsp a0 :
-  lookup h (st_db st) = Some a0 -> a_kind a0 = KValue ->
-  keeps st (r_state (write_value st hk op opa h val rsp)).
+
+Lemma notify_via_keeps st id o mk vh val : keeps st (r_state (notify_via st id o mk vh val)).
 Proof.
-  intros H0 Hk. unfold write_value.
-  destruct (h_write hk) as [|x| | | | |g1 g2 g3|]; try (rewrite hook_error_state; apply keeps_refl).
-  - pose proof (store_keeps st h val a0 H0 Hk) as K1.
-    destruct (h_written hk) as [|y| | | | |k1 k2 k3|]; cbn [r_state done raise]; try exact K1;
-      try (rewrite hook_error_state; exact K1).
-    assert (K2 : keeps st (with_db (with_db st (update h (fun a => set_value a val) (st_db st)))
-                   (update h (fun a => set_value a y) (st_db (with_db st (update h (fun a => set_value a val) (st_db st))))))).
-    { eapply keeps_trans; [exact K1|].
-      apply (store_keeps _ h y (set_value a0 val)); [|exact Hk].
-      cbn [st_db with_db]. rewrite lookup_update_eq by reflexivity. rewrite H0. reflexivity. }
-    destruct (h_written2 hk); exact K2.
-  - pose proof (store_keeps st h x a0 H0 Hk) as K1. destruct (h_written hk); exact K1.
+  pose proof (notify_via_frame st id o mk vh val) as F.
+  split; [rewrite notify_via_db; apply vo_refl|].
+  split; [apply (fr_conn _ _ F)|]. split; [apply (fr_subs _ _ F)|apply (fr_id _ _ F)].
+Qed.
+
+Lemma app_set_db_keeps st d val :
+  keeps st (with_db st (match lookup (d + 1) (st_db st) with
+                        | Some v => if kind_eqb (a_kind v) KValue
+                                    then update (d + 1) (fun a => set_value a val) (st_db st) else st_db st
+                        | None => st_db st end)).
+Proof.
+  destruct (lookup (d + 1) (st_db st)) as [v|] eqn:E; [|split; [apply vo_refl|auto]].
+  destruct (kind_eqb (a_kind v) KValue) eqn:K; [|split; [apply vo_refl|auto]].
+  apply (store_keeps st (d + 1) val v E). destruct (a_kind v); try discriminate. reflexivity.
+Qed.
+
+Lemma app_set_keeps st d val hk : keeps st (r_state (app_set st d val hk)).
+Proof.
+  assert (Hdb : forall st1, app_db st d val st1 -> keeps st st1).
+  { intros st1 [->|(a & Ha & Hk & ->)]; [apply keeps_refl|apply (store_keeps st (d + 1) val a Ha Hk)]. }
+  destruct (app_set_shape st d val hk) as [st1 H|st1 id H|st1 id H]; cbn [r_state done]; [apply Hdb, H| |];
+    (eapply keeps_trans; [apply Hdb, H|apply notify_via_keeps]).
+Qed.
+
+Lemma is_rsp_notif_ok st t p : is_rsp p = true -> notif_ok st t p = true.
+Proof. destruct p; cbn; intros; try reflexivity; discriminate. Qed.
+
+Lemma notif_ok_conn st st' t p : st_connected st' = st_connected st -> notif_ok st' t p = notif_ok st t p.
+Proof. intros E. destruct p; cbn; try reflexivity; rewrite E; reflexivity. Qed.
+
+Lemma notify_via_pdu st id o mk vh val p :
+  In p (r_out (notify_via st id o mk vh val)) -> exists x, p = mk vh x.
+Proof.
+  unfold notify_via. destruct (find_inst st id) as [i|]; [|intros []].
+  destruct (i_proc_locked i); [intros []|].
+  destruct o as [|y| | | | |g1 g2 g3|]; cbn; intros H; try contradiction; destruct H as [<-|[]]; eauto.
+Qed.
+
+Lemma app_set_notif_ok st t d val hk :
+  wf_state st = true -> sub_inv st t ->
+  Forall (fun p => notif_ok st t p = true) (r_out (app_set st d val hk)).
+Proof.
+  intros Hwf Hi. unfold app_set. destruct (lookup d (st_db st)) as [c|] eqn:Lc; [|constructor].
+  destruct (a_kind c); try constructor. cbv zeta.
+  set (db1 := match lookup (d + 1) (st_db st) with
+              | Some v => if kind_eqb (a_kind v) KValue
+                          then update (d + 1) (fun a => set_value a val) (st_db st) else st_db st
+              | None => st_db st end).
+  (* the configuration is not affected by the new value *)
+  assert (Hcfg : cfg_of db1 d = cfg_of (st_db st) d).
+  { pose proof (sub_inv_keeps st _ t Hwf (app_set_db_keeps st d val) Hi) as Hi1. fold db1 in Hi1.
+    destruct (app_set_db_keeps st d val) as ([Es Hl] & _). fold db1 in Es, Hl. cbn [st_db with_db] in Es, Hl.
+    unfold cfg_of. rewrite <- (cccd_handle_static _ _ d Es).
+    destruct (cccd_handle (st_db st) d) as [hc|] eqn:Ec; [|reflexivity].
+    destruct (cccd_handle_spec _ _ _ Ec) as (x & Hin & Hh & Hk & _).
+    pose proof (sorted_in_lookup _ 0 x (db_sorted st Hwf) Hin) as Lx. rewrite Hh in Lx.
+    destruct (Hl hc x Lx) as (a' & La' & _ & _ & Hv). rewrite Lx, La', (Hv Hk). reflexivity. }
+  rewrite Hcfg.
+  assert (Hconn : cb_set c = true -> st_connected st = true /\ cfg_of (st_db st) d = Some (sub_get t d)).
+  { intros Hcb. split.
+    - destruct (st_connected st) eqn:E; [reflexivity|]. rewrite (si_disc _ _ Hi E d c Lc) in Hcb. discriminate.
+    - apply (si_sub _ _ Hi d c Lc Hcb). }
+  destruct (a_ncb c) as [idn|] eqn:En.
+  - destruct (Hconn ltac:(unfold cb_set; rewrite En; reflexivity)) as [Hc Hcf]. rewrite Hcf.
+    destruct (has (a_props c) P_NOTIFY && (sub_get t d =? 1) && true) eqn:E1.
+    + apply Forall_forall. intros p Hp. apply notify_via_pdu in Hp as (x & ->).
+      cbn [notif_ok]. rewrite Hc. replace (d + 1 - 1) with d by lia.
+      apply andb_true_iff in E1 as [E1 _]. apply andb_true_iff in E1 as [_ E1]. rewrite E1. reflexivity.
+    + destruct (a_icb c) as [idi|] eqn:Ei.
+      * destruct (has (a_props c) P_INDICATE && (sub_get t d =? 2) && true) eqn:E2; [|constructor].
+        apply Forall_forall. intros p Hp. apply notify_via_pdu in Hp as (x & ->).
+        cbn [notif_ok]. rewrite Hc. replace (d + 1 - 1) with d by lia.
+        apply andb_true_iff in E2 as [E2 _]. apply andb_true_iff in E2 as [_ E2]. rewrite E2. reflexivity.
+      * rewrite andb_false_r. constructor.
+  - rewrite andb_false_r.
+    destruct (a_icb c) as [idi|] eqn:Ei.
+    + destruct (Hconn ltac:(unfold cb_set; rewrite En, Ei; reflexivity)) as [Hc Hcf]. rewrite Hcf.
+      destruct (has (a_props c) P_INDICATE && (sub_get t d =? 2) && true) eqn:E2; [|constructor].
+      apply Forall_forall. intros p Hp. apply notify_via_pdu in Hp as (x & ->).
+      cbn [notif_ok]. rewrite Hc. replace (d + 1 - 1) with d by lia.
+      apply andb_true_iff in E2 as [E2 _]. apply andb_true_iff in E2 as [_ E2]. rewrite E2. reflexivity.
+    + rewrite andb_false_r. constructor.
+Qed.
+
+(** ** hook call sites: the invariant holds on, and every PDU sent meanwhile is allowed *)
+
+Definition inv_res (st0 : state) (t' : sub_table) (r : hres) : Prop :=
+  sub_inv (r_state r) t' /\ Forall (fun p => notif_ok st0 t' p = true) (r_out r).
+
+Lemma rsp_notif_ok st t out : Forall (fun p => is_rsp p = true) out -> Forall (fun p => notif_ok st t p = true) out.
+Proof. intros H. eapply Forall_impl; [|exact H]. intros p. apply is_rsp_notif_ok. Qed.
+
+Lemma hook_act_inv st t hk act o st1 pd res :
+  wf_state st = true -> sub_inv st t -> wf_act act = true -> hook_act st hk act o = (st1, pd, res) ->
+  wf_state st1 = true /\ sub_inv st1 t /\ Forall (fun p => notif_ok st t p = true) pd
+  /\ st_connected st1 = st_connected st.
+Proof.
+  intros Hwf Hi Ha E. pose proof (hook_act_wf _ _ _ _ _ _ _ E Hwf Ha) as W.
+  unfold hook_act in E. destruct act as [[d v]|]; inversion E; subst; clear E.
+  - pose proof (app_set_keeps st d v hk) as K. split; [exact W|]. split; [apply (sub_inv_keeps st _ t Hwf K Hi)|].
+    split; [apply app_set_notif_ok; assumption|]. destruct K as (_ & Hc & _). exact Hc.
+  - split; [exact W|]. split; [exact Hi|]. split; [constructor|reflexivity].
+Qed.
+
+Lemma post_hook_inv st0 st t hk act o out :
+  st_connected st = st_connected st0 -> wf_state st = true -> sub_inv st t -> wf_act act = true ->
+  Forall (fun p => notif_ok st0 t p = true) out ->
+  inv_res st0 t (post_hook st hk act o out).
+Proof.
+  intros Hc Hwf Hi Ha Ho. unfold post_hook. destruct (hook_act st hk act o) as [[st1 pd] res] eqn:E.
+  destruct (hook_act_inv _ _ _ _ _ _ _ _ Hwf Hi Ha E) as (_ & I1 & P1 & _).
+  assert (P : Forall (fun p => notif_ok st0 t p = true) (out ++ pd)).
+  { apply Forall_app. split; [exact Ho|]. eapply Forall_impl; [|exact P1]. intros p Hp. cbv beta in Hp. rewrite (notif_ok_conn st0 st t p Hc) in Hp.
+    exact Hp. }
+  destruct res as [o'|]; [destruct o'|]; split; assumption.
+Qed.
+
+Lemma hook_error_all_rsp st op opa h o : Forall (fun p => is_rsp p = true) (r_out (hook_error st op opa h o)).
+Proof. destruct o as [|x| | | | |g1 g2 g3|]; cbn; repeat constructor. Qed.
+
+Lemma read_value_answer_inv st t hk op opa h (mk : bytes -> att_pdu) normal :
+  wf_state st = true -> sub_inv st t -> wf_hooks hk = true -> (forall x, is_rsp (mk x) = true) ->
+  inv_res st t (read_value_answer st hk op opa h mk normal).
+Proof.
+  intros Hwf Hi Hh Hmk. apply wf_hooks_inv in Hh as (_ & _ & _ & _ & Ha). apply wf_acts_inv in Ha as (Ha & _).
+  unfold read_value_answer. destruct (hook_act st hk (ha_read (h_acts hk)) (h_read hk)) as [[st1 pd] res] eqn:E.
+  destruct (hook_act_inv _ _ _ _ _ _ _ _ Hwf Hi Ha E) as (_ & I1 & P1 & _).
+  destruct res as [o'|]; [|split; assumption].
+  destruct o' as [|x| | | | |g1 g2 g3|]; cbn [r_state r_out done prepend]; unfold inv_res; cbn [r_state r_out done prepend raise];
+    rewrite ?hook_error_state; (split; [exact I1|]); try (apply Forall_app; split; [exact P1|]);
+    try (constructor; [apply is_rsp_notif_ok, Hmk|constructor]); try exact P1;
+    apply rsp_notif_ok, hook_error_all_rsp.
+Qed.
+
+Lemma read_req_inv st t hk h :
+  wf_state st = true -> sub_inv st t -> wf_hooks hk = true -> inv_res st t (h_read_req V_fixed st hk h).
+Proof.
+  intros Hwf Hi Hh. unfold h_read_req. cbn [fx_read_default V_fixed].
+  assert (T : forall p, is_rsp p = true -> inv_res st t (done st [p])).
+  { intros p Hp. split; [exact Hi|]. constructor; [apply is_rsp_notif_ok, Hp|constructor]. }
+  destruct (h =? 0); [apply T; reflexivity|].
+  destruct (lookup h (st_db st)) as [a|]; [|apply T; reflexivity].
+  destruct (a_kind a); try (apply T; reflexivity).
+  destruct (read_denied st h); [apply T; reflexivity|apply read_value_answer_inv; auto].
+Qed.
+
+Lemma read_blob_inv st t hk h off :
+  wf_state st = true -> sub_inv st t -> wf_hooks hk = true -> inv_res st t (h_read_blob V_fixed st hk h off).
+Proof.
+  intros Hwf Hi Hh. unfold h_read_blob, blob_value_branch. cbn [fx_blob V_fixed].
+  assert (T : forall p, is_rsp p = true -> inv_res st t (done st [p])).
+  { intros p Hp. split; [exact Hi|]. constructor; [apply is_rsp_notif_ok, Hp|constructor]. }
+  destruct (h =? 0); [apply T; reflexivity|].
+  destruct (lookup h (st_db st)) as [a|]; [|apply T; reflexivity].
+  destruct (a_kind a);
+    repeat match goal with
+    | |- context [read_denied st h] => destruct (read_denied st h)
+    | |- context [off <? ?x] => destruct (off <? x)
+    | |- context [off =? ?x] => destruct (off =? x)
+    end; try (apply T; reflexivity); apply read_value_answer_inv; auto.
+Qed.
+
+Lemma store_step st t h x :
+  wf_state st = true -> sub_inv st t -> option_map a_kind (lookup h (st_db st)) = Some KValue -> wf_bytes x = true ->
+  let st' := with_db st (update h (fun a => set_value a x) (st_db st)) in
+  wf_state st' = true /\ sub_inv st' t /\ st_connected st' = st_connected st
+  /\ option_map a_kind (lookup h (st_db st')) = Some KValue.
+Proof.
+  intros Hwf Hi Hk Hx. cbv zeta.
+  destruct (lookup h (st_db st)) as [a|] eqn:L; [|discriminate]. cbn in Hk. inversion Hk as [Hk'].
+  split; [apply (store_value_wf st h a x Hwf L); [rewrite Hk'; discriminate|exact Hx]|].
+  split; [apply (sub_inv_keeps st _ t Hwf (store_keeps st h x a L Hk') Hi)|]. split; [reflexivity|].
+  rewrite (kinds_same_store st h x h), L. cbn. congruence.
+Qed.
+
+Lemma write_value_inv st t hk op opa h val rsp a0 :
+  wf_state st = true -> sub_inv st t -> lookup h (st_db st) = Some a0 -> a_kind a0 = KValue ->
+  wf_bytes val = true -> wf_hooks hk = true -> Forall (fun p => is_rsp p = true) rsp ->
+  inv_res st t (write_value st hk op opa h val rsp).
+Proof.
+  intros Hwf Hi Hl Hk Hv Hh Hrsp. apply wf_hooks_inv in Hh as (_ & Hw & Hwn & _ & Ha).
+  apply wf_acts_inv in Ha as (_ & A1 & A2 & A3 & _).
+  assert (K0 : option_map a_kind (lookup h (st_db st)) = Some KValue) by (rewrite Hl; cbn; congruence).
+  pose proof (rsp_notif_ok st t rsp Hrsp) as Prsp.
+  unfold write_value. cbv zeta.
+  dha ha_write st1 pd1 res1 E1.
+  destruct (hook_act_inv _ _ _ _ _ _ _ _ Hwf Hi A1 E1) as (W1 & I1 & P1 & C1).
+  pose proof (hook_act_kinds _ _ _ _ _ _ _ E1) as Kd1.
+  assert (K1 : option_map a_kind (lookup h (st_db st1)) = Some KValue) by (rewrite Kd1; exact K0).
+  destruct res1 as [o1|]; [|split; assumption].
+  destruct o1 as [|x| | | | |g1 g2 g3|];
+    try (unfold inv_res; cbn [r_state r_out prepend]; rewrite hook_error_state; split; [exact I1|];
+         apply Forall_app; split; [exact P1|apply rsp_notif_ok, hook_error_all_rsp]).
+  - destruct (store_step st1 t h val W1 I1 K1 Hv) as (W2 & I2 & C2 & K2).
+    dha ha_written st3 pd3 res3 E3.
+    destruct (hook_act_inv _ _ _ _ _ _ _ _ W2 I2 A2 E3) as (W3 & I3 & P3 & C3).
+    pose proof (hook_act_kinds _ _ _ _ _ _ _ E3) as Kd3.
+    assert (K3 : option_map a_kind (lookup h (st_db st3)) = Some KValue) by (rewrite Kd3; exact K2).
+    assert (C13 : st_connected st3 = st_connected st) by congruence.
+    assert (P3' : Forall (fun p => notif_ok st t p = true) pd3).
+    { eapply Forall_impl; [|exact P3]. intros p Hp. rewrite <- Hp. symmetry. apply notif_ok_conn. cbn. congruence. }
+    assert (Po3 : Forall (fun p => notif_ok st t p = true) (pd1 ++ rsp ++ pd3)) by (repeat (apply Forall_app; split); assumption).
+    destruct res3 as [o3|]; [|split; assumption].
+    destruct o3 as [|y| | | | |k1 k2 k3|]; try (split; assumption);
+      try (unfold inv_res; cbn [r_state r_out prepend]; rewrite hook_error_state; split; [exact I3|];
+           apply Forall_app; split; [exact Po3|apply rsp_notif_ok, hook_error_all_rsp]).
+    rewrite (hook_act_override _ _ _ _ _ _ _ _ E3 eq_refl) in Hwn.
+    destruct (store_step st3 t h y W3 I3 K3 Hwn) as (W4 & I4 & C4 & _).
+    apply post_hook_inv; [cbn; congruence|exact W4|exact I4|exact A3|apply Forall_app; split; assumption].
+  - rewrite (hook_act_override _ _ _ _ _ _ _ _ E1 eq_refl) in Hw.
+    destruct (store_step st1 t h x W1 I1 K1 Hw) as (W2 & I2 & C2 & _).
+    apply post_hook_inv; [cbn; congruence|exact W2|exact I2|exact A2|apply Forall_app; split; assumption].
 Qed.
 
 Lemma apply_writes_vo h ws : forall db a0, lookup h db = Some a0 -> a_kind a0 = KValue ->
@@ -1205,20 +1746,16 @@ Proof.
   - cbn [r_state err done]. split; [exact V|auto].
 Qed.
 
-Lemma static_sorted d1 d2 : static_db d1 d2 -> forall lo, sorted_from lo d1 = sorted_from lo d2.
-Proof.
-  induction 1 as [|a b r1 r2 E _ IH]; intros lo; cbn [sorted_from]; [reflexivity|].
-  destruct E as (Hh & _). rewrite Hh, IH. reflexivity.
-Qed.
-
 Lemma in_add_sub d l : In d (add_sub d l).
 Proof.
   unfold add_sub. destruct (existsb (N.eqb d) l) eqn:E.
   - apply existsb_exists in E as (x & Hx & Hd). apply N.eqb_eq in Hd. subst. exact Hx.
   - apply in_or_app. right. left. reflexivity.
 Qed.
+
 Lemma in_add_sub_keep d d' l : In d' l -> In d' (add_sub d l).
 Proof. unfold add_sub. destruct (existsb (N.eqb d) l); [auto|]. intros. apply in_or_app. left. assumption. Qed.
+
 Lemma in_remove_sub_keep d d' l : d' <> d -> In d' l -> In d' (remove_sub d l).
 Proof.
   intros Hne. induction l as [|x r IH]; cbn; [auto|].
@@ -1227,7 +1764,6 @@ Proof.
   - destruct (x =? d); [exact Hin|right; apply IH, Hin].
 Qed.
 
-(** general form of the CCCD write: new value at [h], callbacks of [d] changed by [g] *)
 Lemma cccd_general st t h newv cfg d (g : attr -> attr) subs' a :
   wf_state st = true -> sub_inv st t -> st_connected st = true ->
   lookup h (st_db st) = Some a -> a_kind a = KCccd ->
@@ -1312,49 +1848,6 @@ Proof.
   unfold nlen. destruct b as [|x [|y [|z r]]]; cbn; intros H; try lia. eexists. reflexivity.
 Qed.
 
-
-Lemma cccd_effects_inv st t hk h newv out a :
-  wf_state st = true -> sub_inv st t -> st_connected st = true ->
-  lookup h (st_db st) = Some a -> a_kind a = KCccd -> nlen newv = 2 ->
-  sub_inv (r_state (cccd_effects st hk h newv true out))
-          (match un_le16_2 newv, owner_decl h (st_db st) None with
-           | Some cfg, Some d => sub_set t d cfg | _, _ => t end).
-Proof.
-  intros Hwf Hi Hc La Ka Hn. unfold cccd_effects.
-  destruct (un_le16_2_some newv Hn) as (cfg & Hcfg). rewrite Hcfg.
-  destruct (si_owner _ _ Hi h a La Ka) as (d & Ho). rewrite Ho.
-  pose proof (fun g subs' H1 H2 H3 => cccd_general st t h newv cfg d g subs' a Hwf Hi Hc La Ka Hcfg Ho H1 H2 H3) as G.
-  assert (Hc1 : forall c n i, static_eq c (set_cbs c n i) /\ a_value (set_cbs c n i) = a_value c)
-    by (intros; split; [apply set_cbs_static|reflexivity]).
-  destruct (cfg =? 1).
-  { assert (R : sub_inv (with_subs (with_db st (update d (fun c => set_cbs c (Some (i_id (st_cur st))) (a_icb c))
-                  (update h (fun x => set_value x newv) (st_db st)))) (add_sub d (i_subscribed (st_cur st)))) (sub_set t d cfg)).
-    { apply G; [intros; apply Hc1 | intros; apply in_add_sub_keep; assumption | intros; apply in_add_sub]. }
-    destruct (h_sub hk); exact R. }
-  destruct (cfg =? 2).
-  { assert (R : sub_inv (with_subs (with_db st (update d (fun c => set_cbs c (a_ncb c) (Some (i_id (st_cur st))))
-                  (update h (fun x => set_value x newv) (st_db st)))) (add_sub d (i_subscribed (st_cur st)))) (sub_set t d cfg)).
-    { apply G; [intros; apply Hc1 | intros; apply in_add_sub_keep; assumption | intros; apply in_add_sub]. }
-    destruct (h_sub hk); exact R. }
-  destruct (cfg =? 0).
-  { assert (R : sub_inv (with_subs (with_db st (update d (fun c => set_cbs c None None)
-                  (update h (fun x => set_value x newv) (st_db st)))) (remove_sub d (i_subscribed (st_cur st)))) (sub_set t d cfg)).
-    { apply G; [intros; apply Hc1 | intros; apply in_remove_sub_keep; assumption | intros c _ Hcb; discriminate]. }
-    destruct (h_unsub hk); exact R. }
-  (* other configuration values: stored, no callback change *)
-  cbn [r_state done].
-  assert (R : sub_inv (with_subs (with_db st (update d (fun c => c) (update h (fun x => set_value x newv) (st_db st))))
-                                 (i_subscribed (st_cur st))) (sub_set t d cfg)).
-  { apply G; [intros; split; [apply static_eq_refl|reflexivity] | auto |].
-    intros c Lc Hcb. destruct Hi as [_ _ _ Sb].
-    (* c is the attribute at d after the value update: same callbacks as before *)
-    destruct (N.eq_dec d h) as [->|Hne].
-    - rewrite lookup_update_eq in Lc by reflexivity. rewrite La in Lc. inversion Lc; subst c.
-      apply (Sb h a La). exact Hcb.
-    - rewrite lookup_update_ne in Lc by auto. apply (Sb d c Lc Hcb). }
-  rewrite update_id in R. eapply sub_inv_same; [| | |exact R]; reflexivity.
-Qed.
-
 Lemma lookup_zero db lo : sorted_from lo db = true -> lookup 0 db = None.
 Proof.
   revert lo. induction db as [|x r IH]; intros lo H; [reflexivity|]. cbn [sorted_from] in H.
@@ -1362,13 +1855,66 @@ Proof.
   cbn [lookup]. destruct (a_handle x =? 0) eqn:E; [apply N.eqb_eq in E; lia|]. eapply IH; eauto.
 Qed.
 
-Lemma write_gen_inv st t hk is_cmd h val :
+
+Lemma cccd_effects_inv st t hk h newv out a :
   wf_state st = true -> sub_inv st t -> st_connected st = true ->
-  sub_inv (r_state (h_write_gen V_fixed st hk is_cmd h val))
-          (match cccd_write st (if is_cmd then WriteCmd h val else Write h val) with
-           | Some (d, cfg) => sub_set t d cfg | None => t end).
+  lookup h (st_db st) = Some a -> a_kind a = KCccd -> nlen newv = 2 -> wf_bytes newv = true ->
+  wf_hooks hk = true -> Forall (fun p => is_rsp p = true) out ->
+  inv_res st (match un_le16_2 newv, owner_decl h (st_db st) None return sub_table with
+              | Some cfg, Some d => sub_set t d cfg | _, _ => t end)
+          (cccd_effects st hk h newv true out).
 Proof.
-  intros Hwf Hi Hc.
+  intros Hwf Hi Hc La Ka Hn Hv Hh Hout. apply wf_hooks_inv in Hh as (_ & _ & _ & _ & Ha).
+  apply wf_acts_inv in Ha as (_ & _ & _ & _ & As & Au).
+  unfold cccd_effects.
+  destruct (un_le16_2_some newv Hn) as (cfg & Hcfg). rewrite Hcfg.
+  destruct (si_owner _ _ Hi h a La Ka) as (d & Ho). rewrite Ho.
+  pose proof (fun g subs' H1 H2 H3 => cccd_general st t h newv cfg d g subs' a Hwf Hi Hc La Ka Hcfg Ho H1 H2 H3) as G.
+  assert (Hc1 : forall c n i, static_eq c (set_cbs c n i) /\ a_value (set_cbs c n i) = a_value c)
+    by (intros; split; [apply set_cbs_static|reflexivity]).
+  assert (E1 : db_ext (st_db st) (update h (fun a0 => set_value a0 newv) (st_db st))).
+  { apply update_ext. intros a' _. apply set_value_ext; [exact Hv|intros _; exact Hn]. }
+  pose proof (wf_state_with_db st _ Hwf E1) as W1.
+  assert (W2 : forall f subs, (forall c, attr_ext c (f c)) ->
+            wf_state (with_subs (with_db (with_db st (update h (fun a0 => set_value a0 newv) (st_db st)))
+                              (update d f (update h (fun a0 => set_value a0 newv) (st_db st)))) subs) = true).
+  { intros f subs Hf. apply (wf_state_with_db _ _ W1). apply update_ext. intros c _. apply Hf. }
+  pose proof (rsp_notif_ok st (sub_set t d cfg) out Hout) as Pout.
+  destruct (cfg =? 1).
+  { assert (R : sub_inv (with_subs (with_db st (update d (fun c => set_cbs c (Some (i_id (st_cur st))) (a_icb c))
+                  (update h (fun x => set_value x newv) (st_db st)))) (add_sub d (i_subscribed (st_cur st)))) (sub_set t d cfg)).
+    { apply G; [intros; apply Hc1 | intros; apply in_add_sub_keep; assumption | intros; apply in_add_sub]. }
+    apply post_hook_inv; [reflexivity|apply W2; intros; apply set_cbs_ext|exact R|exact As|exact Pout]. }
+  destruct (cfg =? 2).
+  { assert (R : sub_inv (with_subs (with_db st (update d (fun c => set_cbs c (a_ncb c) (Some (i_id (st_cur st))))
+                  (update h (fun x => set_value x newv) (st_db st)))) (add_sub d (i_subscribed (st_cur st)))) (sub_set t d cfg)).
+    { apply G; [intros; apply Hc1 | intros; apply in_add_sub_keep; assumption | intros; apply in_add_sub]. }
+    apply post_hook_inv; [reflexivity|apply W2; intros; apply set_cbs_ext|exact R|exact As|exact Pout]. }
+  destruct (cfg =? 0).
+  { assert (R : sub_inv (with_subs (with_db st (update d (fun c => set_cbs c None None)
+                  (update h (fun x => set_value x newv) (st_db st)))) (remove_sub d (i_subscribed (st_cur st)))) (sub_set t d cfg)).
+    { apply G; [intros; apply Hc1 | intros; apply in_remove_sub_keep; assumption | intros c _ Hcb; discriminate]. }
+    apply post_hook_inv; [reflexivity|apply W2; intros; apply set_cbs_ext|exact R|exact Au|exact Pout]. }
+  (* other configuration values: stored, no callback change *)
+  split; [|exact Pout]. cbn [r_state done].
+  assert (R : sub_inv (with_subs (with_db st (update d (fun c => c) (update h (fun x => set_value x newv) (st_db st))))
+                                 (i_subscribed (st_cur st))) (sub_set t d cfg)).
+  { apply G; [intros; split; [apply static_eq_refl|reflexivity] | auto |].
+    intros c Lc Hcb. destruct Hi as [_ _ _ Sb].
+    destruct (N.eq_dec d h) as [->|Hne].
+    - rewrite lookup_update_eq in Lc by reflexivity. rewrite La in Lc. inversion Lc; subst c.
+      apply (Sb h a La). exact Hcb.
+    - rewrite lookup_update_ne in Lc by auto. apply (Sb d c Lc Hcb). }
+  rewrite update_id in R. eapply sub_inv_same; [| | |exact R]; reflexivity.
+Qed.
+
+Lemma write_gen_inv st t hk (is_cmd : bool) h val :
+  wf_state st = true -> sub_inv st t -> st_connected st = true -> wf_bytes val = true -> wf_hooks hk = true ->
+  inv_res st (match cccd_write st (if is_cmd then WriteCmd h val else Write h val) return sub_table with
+              | Some (d, cfg) => sub_set t d cfg | None => t end)
+          (h_write_gen V_fixed st hk is_cmd h val).
+Proof.
+  intros Hwf Hi Hc Hv Hh.
   assert (Ecw : cccd_write st (if is_cmd then WriteCmd h val else Write h val)
           = match lookup h (st_db st) with
             | Some a => match a_kind a with
@@ -1380,21 +1926,25 @@ Proof.
             | None => None end) by (destruct is_cmd; reflexivity).
   rewrite Ecw. clear Ecw.
   unfold h_write_gen. cbn [fx_write_default fx_sub_record V_fixed].
+  assert (T : forall out, Forall (fun p => is_rsp p = true) out -> inv_res st t (done st out)).
+  { intros out Ho. split; [exact Hi|apply rsp_notif_ok, Ho]. }
+  assert (Hrsp : Forall (fun p => is_rsp p = true) (if is_cmd then [] else [PWriteRsp])) by (destruct is_cmd; repeat constructor).
   destruct (h =? 0) eqn:E0.
-  { apply N.eqb_eq in E0. subst h. rewrite (lookup_zero _ 0 (db_sorted st Hwf)). exact Hi. }
-  destruct (lookup h (st_db st)) as [a|] eqn:El; [|exact Hi].
-  destruct (a_kind a) eqn:K; try (destruct is_cmd; exact Hi).
-  - destruct (write_denied st h E_NOT_FOUND); [exact Hi|].
-    apply (sub_inv_keeps st _ t Hwf); [|exact Hi]. eapply write_value_keeps_inv; eauto.
-  - destruct ((nlen val <=? 2) && (negb is_cmd || negb (bytes_eqb val (a_value a)))) eqn:Eb; [|exact Hi].
+  { apply N.eqb_eq in E0. subst h. rewrite (lookup_zero _ 0 (db_sorted st Hwf)). apply T. repeat constructor. }
+  destruct (lookup h (st_db st)) as [a|] eqn:El; [|apply T; repeat constructor].
+  destruct (a_kind a) eqn:K; try (destruct is_cmd; apply T; repeat constructor).
+  - destruct (write_denied st h E_NOT_FOUND); [apply T; repeat constructor|].
+    eapply write_value_inv; eauto.
+  - destruct ((nlen val <=? 2) && (negb is_cmd || negb (bytes_eqb val (a_value a)))) eqn:Eb; [|apply T; repeat constructor].
     rewrite orb_true_r.
-    pose proof (cccd_effects_inv st t hk h (val ++ skipn (length val) (a_value a))
-                 (if is_cmd then [] else [PWriteRsp]) a Hwf Hi Hc El K) as R.
-    assert (Hn : nlen (val ++ skipn (length val) (a_value a)) = 2).
+    assert (Hn : nlen (val ++ skipn (length val) (a_value a)) = 2 /\ wf_bytes (val ++ skipn (length val) (a_value a)) = true).
     { apply andb_true_iff in Eb as [Eb _]. apply N.leb_le in Eb.
-      pose proof (wf_attr_value a (lookup_wf _ _ _ (wf_state_attrs _ Hwf) El)) as [_ Wl]. specialize (Wl K).
-      rewrite nlen_app. unfold nlen in *. rewrite skipn_length. lia. }
-    specialize (R Hn).
+      pose proof (wf_attr_value a (lookup_wf _ _ _ (wf_state_attrs _ Hwf) El)) as [Wv Wl]. specialize (Wl K).
+      split; [rewrite nlen_app; unfold nlen in *; rewrite skipn_length; lia|].
+      rewrite wf_bytes_app. apply andb_true_iff. split; [exact Hv|apply wf_bytes_skipn, Wv]. }
+    destruct Hn as [Hn Hwv].
+    pose proof (cccd_effects_inv st t hk h (val ++ skipn (length val) (a_value a))
+                 (if is_cmd then [] else [PWriteRsp]) a Hwf Hi Hc El K Hn Hwv Hh Hrsp) as R.
     destruct (un_le16_2 (val ++ skipn (length val) (a_value a))); [|exact R].
     destruct (owner_decl h (st_db st) None); exact R.
 Qed.
@@ -1404,84 +1954,7 @@ Proof. intros (V & C & Sb & I). split; [exact V|auto]. Qed.
 Lemma keeps_from_lock st st' : keeps (with_lock st true) st' -> keeps st st'.
 Proof. intros (V & C & Sb & I). split; [exact V|auto]. Qed.
 
-Lemma locked_keeps_inv v st body :
-  keeps (with_lock st true) (r_state (body (with_lock st true))) -> keeps st (r_state (locked v st body)).
-Proof.
-  intros H. unfold locked. destruct (tx_locked st); [apply keeps_refl|].
-  destruct (r_exc (body (with_lock st true))); cbn [r_state]; apply keeps_lock, keeps_from_lock, H.
-Qed.
-
-Lemma handle_keeps st r hk :
-  match r with Write _ _ | WriteCmd _ _ => False | _ => True end ->
-  keeps st (r_state (handle V_fixed st r hk)).
-Proof.
-  intros Hr. destruct r; try contradiction; cbn [handle fx_rbt128 V_fixed]; try apply keeps_refl;
-    try apply locked_keeps_inv.
-  - unfold h_mtu. destruct (23 <=? mtu); (split; [apply vo_refl|auto]).
-  - rewrite find_info_state. apply keeps_refl.
-  - rewrite fbtv_state. apply keeps_refl.
-  - rewrite read_by_type_state. apply keeps_refl.
-  - rewrite read_by_type_state. apply keeps_refl.
-  - rewrite read_req_state. apply keeps_refl.
-  - rewrite read_blob_state. apply keeps_refl.
-  - destruct hs; [apply keeps_refl|]. apply locked_keeps_inv, keeps_refl.
-  - rewrite read_by_group_state. apply keeps_refl.
-  - unfold h_prepare. destruct (lookup h _); (split; [apply vo_refl|auto]).
-  - unfold h_execute. cbn [fx_exec_clear fx_exec_flags V_fixed].
-    destruct (flags =? 0); [split; [apply vo_refl|auto]|]. destruct (flags =? 1); [|apply keeps_refl].
-    pose proof (exec_loop_keeps_inv (i_queues (st_cur (with_lock st true))) (with_lock st true)) as H.
-    destruct (exec_loop V_fixed (with_lock st true) (i_queues (st_cur (with_lock st true)))); [exact H|].
-    cbn [r_state done]. destruct H as (V & C & Sb & I). split; [exact V|auto].
-  - apply keeps_refl.
-Qed.
-
-Lemma handle_inv st t r hk :
-  wf_state st = true -> sub_inv st t -> st_connected st = true ->
-  sub_inv (r_state (handle V_fixed st r hk)) (ref_step st t (EvReq r hk)).
-Proof.
-  intros Hwf Hi Hc. cbn [ref_step]. rewrite Hc. cbn [andb].
-  destruct (tx_locked st) eqn:Hl; cbn [negb].
-  { (* locked: nothing happens *)
-    destruct r; cbn [handle fx_rbt128 V_fixed]; unfold locked; rewrite ?Hl; try exact Hi.
-    destruct hs; exact Hi. }
-  assert (Wr : forall is_cmd h val,
-            sub_inv (r_state (locked V_fixed st (fun x => h_write_gen V_fixed x hk is_cmd h val)))
-                    (match cccd_write st (if is_cmd then WriteCmd h val else Write h val) with
-                     | Some (d, cfg) => sub_set t d cfg | None => t end)).
-  { intros. unfold locked. rewrite Hl.
-    assert (Hi' : sub_inv (with_lock st true) t) by (eapply sub_inv_same; [| | |exact Hi]; reflexivity).
-    pose proof (write_gen_inv (with_lock st true) t hk is_cmd h val Hwf Hi' Hc) as R.
-    change (cccd_write (with_lock st true)) with (cccd_write st) in R.
-    destruct (r_exc (h_write_gen V_fixed (with_lock st true) hk is_cmd h val)); cbn [r_state];
-      (eapply sub_inv_same; [| | |exact R]; reflexivity). }
-  destruct r; try (apply (sub_inv_keeps st _ t Hwf); [apply handle_keeps; exact I|exact Hi]).
-  - apply (Wr false h v).
-  - apply (Wr true h v).
-Qed.
-
-(** no handler emits a notification or an indication *)
-Definition is_rsp (p : att_pdu) : bool := match p with PNotification _ _ | PIndication _ _ => false | _ => true end.
-
-Lemma hook_error_rsp st op opa h o : Forall (fun p => is_rsp p = true) (r_out (hook_error st op opa h o)).
-Proof. destruct o as [|x| | | | |g1 g2 g3|]; cbn; repeat constructor. Qed.
-
-Lemma read_value_answer_rsp st op opa h o mk n ov :
-  is_rsp (mk n) = true -> is_rsp (mk ov) = true ->
-  Forall (fun p => is_rsp p = true) (r_out (read_value_answer st op opa h o mk n ov)).
-Proof. intros. destruct o as [|x| | | | |g1 g2 g3|]; cbn; repeat constructor; assumption. Qed.
-
-Lemma write_value_rsp st hk op opa h val rsp :
-  Forall (fun p => is_rsp p = true) rsp ->
-  Forall (fun p => is_rsp p = true) (r_out (write_value st hk op opa h val rsp)).
-Proof.
-  intros Hr. unfold write_value.
-  destruct (h_write hk) as [|x| | | | |g1 g2 g3|]; try apply hook_error_rsp.
-  - destruct (h_written hk) as [|y| | | | |k1 k2 k3|]; cbn [r_out done raise]; try exact Hr;
-      try (apply Forall_app; split; [exact Hr|apply hook_error_rsp]).
-    destruct (h_written2 hk); cbn [r_out done raise]; apply Forall_app; split; exact Hr.
-  - destruct (h_written hk); exact Hr.
-Qed.
-
+(** requests whose handlers run no hook: the state changes by values only, the output holds responses only *)
 Lemma exec_loop_rsp q : forall st r, exec_loop V_fixed st q = inl r -> Forall (fun p => is_rsp p = true) (r_out r).
 Proof.
   induction q as [|[h ws] q IH]; intros st r; cbn [exec_loop]; [discriminate|].
@@ -1492,148 +1965,74 @@ Proof.
   destruct (apply_writes h ws (st_db st)) as [db' ok]. destruct ok; [apply IH|intros E; inversion E; repeat constructor].
 Qed.
 
-Lemma handle_rsp st r hk : Forall (fun p => is_rsp p = true) (r_out (handle V_fixed st r hk)).
+Definition hookless (r : att_request) : bool :=
+  match r with Read _ | ReadBlob _ _ | Write _ _ | WriteCmd _ _ => false | _ => true end.
+
+Lemma hookless_body st r hk :
+  hookless r = true ->
+  keeps st (r_state (handle V_fixed st r hk)) /\ Forall (fun p => is_rsp p = true) (r_out (handle V_fixed st r hk)).
 Proof.
-  assert (L : forall body, (forall s, Forall (fun p => is_rsp p = true) (r_out (body s))) ->
-              Forall (fun p => is_rsp p = true) (r_out (locked V_fixed st body))).
-  { intros body H. unfold locked. destruct (tx_locked st); [constructor|].
-    destruct (r_exc (body (with_lock st true))); apply H. }
-  destruct r; cbn [handle fx_rbt128 V_fixed]; try (cbn [r_out done]; constructor; fail); try apply L; try intros s0.
-  - repeat constructor.
-  - unfold h_find_info. break; repeat constructor.
-  - unfold h_fbtv. break; repeat constructor.
-  - unfold h_read_by_type. break; repeat constructor.
-  - unfold h_read_by_type. break; repeat constructor.
-  - unfold h_read_req. cbn [fx_read_default V_fixed]. destruct (h =? 0); [repeat constructor|].
-    destruct (lookup h (st_db s0)) as [a|]; [|repeat constructor].
-    destruct (a_kind a); try (repeat constructor).
-    destruct (read_denied s0 h); [repeat constructor|]. apply read_value_answer_rsp; reflexivity.
-  - unfold h_read_blob, blob_value_branch. cbn [fx_blob V_fixed]. destruct (h =? 0); [repeat constructor|].
-    destruct (lookup h (st_db s0)) as [a|]; [|repeat constructor].
-    destruct (a_kind a);
-      repeat match goal with
-      | |- context [read_denied s0 h] => destruct (read_denied s0 h)
-      | |- context [off <? ?x] => destruct (off <? x)
-      | |- context [off =? ?x] => destruct (off =? x)
-      end; try (repeat constructor); apply read_value_answer_rsp; reflexivity.
-  - destruct hs; [constructor|]. apply L. intros. repeat constructor.
-  - unfold h_read_by_group. break; repeat constructor.
-  - unfold h_write_gen. cbn [fx_write_default fx_sub_record V_fixed]. destruct (h =? 0); [repeat constructor|].
-    destruct (lookup h (st_db s0)) as [a|]; [|repeat constructor].
-    destruct (a_kind a); try (repeat constructor).
-    + destruct (write_denied s0 h E_NOT_FOUND); [repeat constructor|]. apply write_value_rsp. repeat constructor.
-    + match goal with |- context [if ?b then cccd_effects _ _ _ _ _ _ else _] => destruct b end;
-        [rewrite cccd_effects_out|]; repeat constructor.
-  - unfold h_write_gen. cbn [fx_write_default fx_sub_record V_fixed]. destruct (h =? 0); [repeat constructor|].
-    destruct (lookup h (st_db s0)) as [a|]; [|repeat constructor].
-    destruct (a_kind a); try (repeat constructor).
-    + destruct (write_denied s0 h E_NOT_FOUND); [repeat constructor|]. apply write_value_rsp. constructor.
-    + match goal with |- context [if ?b then cccd_effects _ _ _ _ _ _ else _] => destruct b end;
-        [rewrite cccd_effects_out|]; repeat constructor.
-  - unfold h_prepare. destruct (lookup h _); repeat constructor.
+  intros Hr.
+  assert (L : forall body, (forall s, keeps s (r_state (body s)) /\ Forall (fun p => is_rsp p = true) (r_out (body s))) ->
+              keeps st (r_state (locked V_fixed st body)) /\ Forall (fun p => is_rsp p = true) (r_out (locked V_fixed st body))).
+  { intros body H. unfold locked. destruct (tx_locked st); [split; [apply keeps_refl|constructor]|].
+    destruct (H (with_lock st true)) as [K O].
+    destruct (r_exc (body (with_lock st true))) as [[]|]; cbn [r_state r_out]; (split; [|exact O]);
+      try apply keeps_lock; apply keeps_from_lock, K. }
+  assert (T : keeps st st /\ Forall (fun p => is_rsp p = true) (@nil att_pdu)) by (split; [apply keeps_refl|constructor]).
+  destruct r; try discriminate Hr; cbn [handle fx_rbt128 V_fixed]; try exact T; try apply L; try intros s0.
+  - unfold h_mtu. destruct (23 <=? mtu); (split; [split; [apply vo_refl|auto]|repeat constructor]).
+  - rewrite find_info_state. split; [apply keeps_refl|]. unfold h_find_info. break; repeat constructor.
+  - rewrite fbtv_state. split; [apply keeps_refl|]. unfold h_fbtv. break; repeat constructor.
+  - rewrite read_by_type_state. split; [apply keeps_refl|]. unfold h_read_by_type. break; repeat constructor.
+  - rewrite read_by_type_state. split; [apply keeps_refl|]. unfold h_read_by_type. break; repeat constructor.
+  - destruct hs; [exact T|]. apply L. intros s1. split; [apply keeps_refl|repeat constructor].
+  - rewrite read_by_group_state. split; [apply keeps_refl|]. unfold h_read_by_group. break; repeat constructor.
+  - unfold h_prepare. destruct (lookup h _); (split; [split; [apply vo_refl|auto]|repeat constructor]).
   - unfold h_execute. cbn [fx_exec_clear fx_exec_flags V_fixed].
-    destruct (flags =? 0); [repeat constructor|]. destruct (flags =? 1); [|repeat constructor].
-    destruct (exec_loop V_fixed s0 (i_queues (st_cur s0))) eqn:E; [eapply exec_loop_rsp; eauto|repeat constructor].
-  - repeat constructor.
+    destruct (flags =? 0); [split; [split; [apply vo_refl|auto]|repeat constructor]|].
+    destruct (flags =? 1); [|split; [apply keeps_refl|repeat constructor]].
+    pose proof (exec_loop_keeps_inv (i_queues (st_cur s0)) s0) as H.
+    destruct (exec_loop V_fixed s0 (i_queues (st_cur s0))) eqn:E; [split; [exact H|eapply exec_loop_rsp; eauto]|].
+    cbn [r_state r_out done]. destruct H as (V & C & Sb & I). split; [split; [exact V|auto]|repeat constructor].
+  - split; [apply keeps_refl|repeat constructor].
 Qed.
 
-(** ** the other events *)
-
-Lemma notify_via_keeps st id o mk vh val : keeps st (r_state (notify_via st id o mk vh val)).
+Lemma locked_inv st t' body :
+  tx_locked st = false -> inv_res (with_lock st true) t' (body (with_lock st true)) ->
+  inv_res st t' (locked V_fixed st body).
 Proof.
-  unfold notify_via. destruct (find_inst st id) as [i|] eqn:Hf; [|apply keeps_refl].
-  destruct (find_inst_id _ _ _ Hf) as [Hid Hcur].
-  destruct (i_proc_locked i); [apply keeps_refl|].
-  destruct o as [|x| | | | |g1 g2 g3|]; try apply keeps_refl; cbn [r_state raise];
-    unfold put_inst; cbn [with_proc i_id];
-    (destruct (i_id (st_cur st) =? i_id i) eqn:E;
-     [ apply N.eqb_eq in E; rewrite (Hcur (eq_trans E Hid)); split; [apply vo_refl|repeat split]
-     | split; [apply vo_refl|repeat split] ]).
+  intros Hl [I O]. unfold locked. rewrite Hl.
+  destruct (r_exc (body (with_lock st true))) as [[]|]; (split; [|exact O]); cbn [r_state];
+    try (eapply sub_inv_same; [| | |exact I]; reflexivity); exact I.
 Qed.
 
-Lemma app_set_db_keeps st d val :
-  keeps st (with_db st (match lookup (d + 1) (st_db st) with
-                        | Some v => if kind_eqb (a_kind v) KValue
-                                    then update (d + 1) (fun a => set_value a val) (st_db st) else st_db st
-                        | None => st_db st end)).
+Lemma handle_inv st t r hk :
+  wf_state st = true -> sub_inv st t -> st_connected st = true ->
+  wf_request (mtu_of st) r = true -> wf_hooks hk = true ->
+  inv_res st (ref_step st t (EvReq r hk)) (handle V_fixed st r hk).
 Proof.
-  destruct (lookup (d + 1) (st_db st)) as [v|] eqn:E; [|split; [apply vo_refl|auto]].
-  destruct (kind_eqb (a_kind v) KValue) eqn:K; [|split; [apply vo_refl|auto]].
-  apply (store_keeps st (d + 1) val v E). destruct (a_kind v); try discriminate. reflexivity.
+  intros Hwf Hi Hc Hr Hh. cbn [ref_step]. rewrite Hc. cbn [andb].
+  destruct (tx_locked st) eqn:Hl; cbn [negb].
+  { (* locked: nothing happens *)
+    destruct r; cbn [handle fx_rbt128 V_fixed]; unfold locked; rewrite ?Hl; try (split; [exact Hi|constructor]).
+    destruct hs; (split; [exact Hi|constructor]). }
+  assert (Hi' : sub_inv (with_lock st true) t) by (eapply sub_inv_same; [| | |exact Hi]; reflexivity).
+  assert (Hwf' : wf_state (with_lock st true) = true) by exact Hwf.
+  unfold wf_request in Hr. apply andb_true_iff in Hr as [_ Hr].
+  destruct (hookless r) eqn:Hk.
+  { assert (Et : match cccd_write st r with Some (d, cfg) => sub_set t d cfg | None => t end = t)
+      by (destruct r; try discriminate Hk; reflexivity).
+    rewrite Et. destruct (hookless_body st r hk Hk) as [K O].
+    split; [apply (sub_inv_keeps st _ t Hwf K Hi)|apply rsp_notif_ok, O]. }
+  destruct r; try discriminate Hk; cbn [handle]; apply (locked_inv st _ _ Hl).
+  - cbn [cccd_write]. apply read_req_inv; assumption.
+  - cbn [cccd_write]. apply read_blob_inv; assumption.
+  - apply andb_true_iff in Hr as [_ Hv].
+    apply (write_gen_inv (with_lock st true) t hk false h v Hwf' Hi' Hc Hv Hh).
+  - apply andb_true_iff in Hr as [_ Hv].
+    apply (write_gen_inv (with_lock st true) t hk true h v Hwf' Hi' Hc Hv Hh).
 Qed.
-
-Lemma app_set_keeps st d val hk : keeps st (r_state (app_set st d val hk)).
-Proof.
-  unfold app_set. destruct (lookup d (st_db st)) as [c|]; [|apply keeps_refl].
-  destruct (a_kind c); try apply keeps_refl.
-  cbv zeta.
-  repeat match goal with
-  | |- context [if ?x then _ else _] => destruct x
-  | |- context [match a_ncb c with _ => _ end] => destruct (a_ncb c)
-  | |- context [match a_icb c with _ => _ end] => destruct (a_icb c)
-  end; cbn [r_state done];
-  try apply app_set_db_keeps;
-  (eapply keeps_trans; [apply app_set_db_keeps|apply notify_via_keeps]).
-Qed.
-
-Lemma is_rsp_notif_ok st t p : is_rsp p = true -> notif_ok st t p = true.
-Proof. destruct p; cbn; intros; try reflexivity; discriminate. Qed.
-
-Lemma notify_via_out st id o mk vh val p :
-  In p (r_out (notify_via st id o mk vh val)) -> exists x, p = mk vh x.
-Proof.
-  unfold notify_via. destruct (find_inst st id) as [i|]; [|intros []].
-  destruct (i_proc_locked i); [intros []|].
-  destruct o as [|y| | | | |g1 g2 g3|]; cbn; intros H; try contradiction; destruct H as [<-|[]]; eauto.
-Qed.
-
-Lemma app_set_notif_ok st t d val hk :
-  wf_state st = true -> sub_inv st t ->
-  Forall (fun p => notif_ok st t p = true) (r_out (app_set st d val hk)).
-Proof.
-  intros Hwf Hi. unfold app_set. destruct (lookup d (st_db st)) as [c|] eqn:Lc; [|constructor].
-  destruct (a_kind c); try constructor. cbv zeta.
-  set (db1 := match lookup (d + 1) (st_db st) with
-              | Some v => if kind_eqb (a_kind v) KValue
-                          then update (d + 1) (fun a => set_value a val) (st_db st) else st_db st
-              | None => st_db st end).
-  (* the configuration is not affected by the new value *)
-  assert (Hcfg : cfg_of db1 d = cfg_of (st_db st) d).
-  { pose proof (sub_inv_keeps st _ t Hwf (app_set_db_keeps st d val) Hi) as Hi1. fold db1 in Hi1.
-    destruct (app_set_db_keeps st d val) as ([Es Hl] & _). fold db1 in Es, Hl. cbn [st_db with_db] in Es, Hl.
-    unfold cfg_of. rewrite <- (cccd_handle_static _ _ d Es).
-    destruct (cccd_handle (st_db st) d) as [hc|] eqn:Ec; [|reflexivity].
-    destruct (cccd_handle_spec _ _ _ Ec) as (x & Hin & Hh & Hk & _).
-    pose proof (sorted_in_lookup _ 0 x (db_sorted st Hwf) Hin) as Lx. rewrite Hh in Lx.
-    destruct (Hl hc x Lx) as (a' & La' & _ & _ & Hv). rewrite Lx, La', (Hv Hk). reflexivity. }
-  rewrite Hcfg.
-  assert (Hconn : cb_set c = true -> st_connected st = true /\ cfg_of (st_db st) d = Some (sub_get t d)).
-  { intros Hcb. split.
-    - destruct (st_connected st) eqn:E; [reflexivity|]. rewrite (si_disc _ _ Hi E d c Lc) in Hcb. discriminate.
-    - apply (si_sub _ _ Hi d c Lc Hcb). }
-  destruct (a_ncb c) as [idn|] eqn:En.
-  - destruct (Hconn ltac:(unfold cb_set; rewrite En; reflexivity)) as [Hc Hcf]. rewrite Hcf.
-    destruct (has (a_props c) P_NOTIFY && (sub_get t d =? 1) && true) eqn:E1.
-    + apply Forall_forall. intros p Hp. apply notify_via_out in Hp as (x & ->).
-      cbn [notif_ok]. rewrite Hc. replace (d + 1 - 1) with d by lia.
-      apply andb_true_iff in E1 as [E1 _]. apply andb_true_iff in E1 as [_ E1]. rewrite E1. reflexivity.
-    + destruct (a_icb c) as [idi|] eqn:Ei.
-      * destruct (has (a_props c) P_INDICATE && (sub_get t d =? 2) && true) eqn:E2; [|constructor].
-        apply Forall_forall. intros p Hp. apply notify_via_out in Hp as (x & ->).
-        cbn [notif_ok]. rewrite Hc. replace (d + 1 - 1) with d by lia.
-        apply andb_true_iff in E2 as [E2 _]. apply andb_true_iff in E2 as [_ E2]. rewrite E2. reflexivity.
-      * rewrite andb_false_r. constructor.
-  - rewrite andb_false_r.
-    destruct (a_icb c) as [idi|] eqn:Ei.
-    + destruct (Hconn ltac:(unfold cb_set; rewrite En, Ei; reflexivity)) as [Hc Hcf]. rewrite Hcf.
-      destruct (has (a_props c) P_INDICATE && (sub_get t d =? 2) && true) eqn:E2; [|constructor].
-      apply Forall_forall. intros p Hp. apply notify_via_out in Hp as (x & ->).
-      cbn [notif_ok]. rewrite Hc. replace (d + 1 - 1) with d by lia.
-      apply andb_true_iff in E2 as [E2 _]. apply andb_true_iff in E2 as [_ E2]. rewrite E2. reflexivity.
-    + rewrite andb_false_r. constructor.
-Qed.
-
-(** ** well-formedness along histories *)
 
 Lemma wf_state_same st st' :
   st_db st' = st_db st -> i_mtu (st_cur st') = i_mtu (st_cur st) -> i_queues (st_cur st') = i_queues (st_cur st) ->
@@ -1642,42 +2041,13 @@ Proof.
   intros Ed Em Eq H. unfold wf_state, mtu_of, queue_ok in *. rewrite Ed, Em, Eq. exact H.
 Qed.
 
-Lemma notify_via_wf st id o mk vh val : wf_state st = true -> wf_state (r_state (notify_via st id o mk vh val)) = true.
-Proof.
-  intros Hwf. unfold notify_via. destruct (find_inst st id) as [i|] eqn:Hf; [|exact Hwf].
-  destruct (find_inst_id _ _ _ Hf) as [Hid Hcur].
-  destruct (i_proc_locked i); [exact Hwf|].
-  destruct o as [|x| | | | |g1 g2 g3|]; try exact Hwf; cbn [r_state raise];
-    unfold put_inst; cbn [with_proc i_id];
-    (destruct (i_id (st_cur st) =? i_id i) eqn:E;
-     [ apply N.eqb_eq in E; rewrite (Hcur (eq_trans E Hid)); eapply wf_state_same; [| | |exact Hwf]; reflexivity
-     | eapply wf_state_same; [| | |exact Hwf]; reflexivity ]).
-Qed.
-
-Lemma app_set_wf st d val hk : wf_state st = true -> wf_bytes val = true -> wf_state (r_state (app_set st d val hk)) = true.
-Proof.
-  intros Hwf Hv. unfold app_set. destruct (lookup d (st_db st)) as [c|]; [|exact Hwf].
-  destruct (a_kind c); try exact Hwf. cbv zeta.
-  assert (W1 : wf_state (with_db st (match lookup (d + 1) (st_db st) with
-                        | Some v => if kind_eqb (a_kind v) KValue
-                                    then update (d + 1) (fun a => set_value a val) (st_db st) else st_db st
-                        | None => st_db st end)) = true).
-  { destruct (lookup (d + 1) (st_db st)) as [v|] eqn:E; [|apply wf_state_with_db; [exact Hwf|apply db_ext_refl]].
-    destruct (kind_eqb (a_kind v) KValue) eqn:K; [|apply wf_state_with_db; [exact Hwf|apply db_ext_refl]].
-    apply (store_value_wf st (d + 1) v val Hwf E); [|exact Hv]. destruct (a_kind v); discriminate. }
-  repeat match goal with
-  | |- context [if ?x then _ else _] => destruct x
-  | |- context [match a_ncb c with _ => _ end] => destruct (a_ncb c)
-  | |- context [match a_icb c with _ => _ end] => destruct (a_icb c)
-  end; cbn [r_state done]; try exact W1; apply notify_via_wf, W1.
-Qed.
-
 Lemma terminated_ext st : db_ext (st_db st) (st_db (terminated st)).
 Proof.
   unfold terminated. cbn [st_db with_db with_subs with_cur].
   induction (st_db st) as [|a r IH]; cbn [map]; constructor; [|exact IH].
   destruct (existsb _ _); [apply set_cbs_ext|apply attr_ext_refl].
 Qed.
+
 
 Lemma step_event_wf st ev : wf_state st = true -> ev_ok st ev = true -> wf_state (r_state (step V_fixed st ev)) = true.
 Proof.
@@ -1711,12 +2081,15 @@ Qed.
 Lemma map_static (g : attr -> attr) db : (forall a, static_eq a (g a)) -> static_db db (map g db).
 Proof. intros Hg. induction db as [|a r IH]; cbn [map]; constructor; [apply Hg|exact IH]. Qed.
 
+
 Lemma step_inv st t ev :
-  wf_state st = true -> sub_inv st t -> sub_inv (r_state (step V_fixed st ev)) (ref_step st t ev).
+  wf_state st = true -> sub_inv st t -> ev_ok st ev = true ->
+  sub_inv (r_state (step V_fixed st ev)) (ref_step st t ev).
 Proof.
-  intros Hwf Hi. destruct ev; cbn [step].
-  - destruct (st_connected st) eqn:Hc; [apply handle_inv; assumption|].
-    cbn [ref_step r_state done]. rewrite Hc. exact Hi.
+  intros Hwf Hi Hok. destruct ev; cbn [step].
+  - destruct (st_connected st) eqn:Hc.
+    + cbn [ev_ok] in Hok. apply andb_true_iff in Hok as [H1 H2]. apply (handle_inv st t r hk Hwf Hi Hc H1 H2).
+    + cbn [ref_step r_state done]. rewrite Hc. exact Hi.
   - cbn [r_state done ref_step]. destruct (st_connected st) eqn:Hc; [|exact Hi].
     eapply sub_inv_same; [| | |exact Hi]; try reflexivity. cbn. congruence.
   - cbn [ref_step]. apply (sub_inv_keeps st _ t Hwf (app_set_keeps st decl v hk) Hi).
@@ -1752,6 +2125,19 @@ Proof.
     + intros d c Lc Hcb. rewrite (D Hc d c Lc) in Hcb. discriminate.
 Qed.
 
+Lemma step_out_ok st t ev :
+  wf_state st = true -> sub_inv st t -> ev_ok st ev = true ->
+  Forall (fun p => notif_ok st (ref_step st t ev) p = true) (r_out (step V_fixed st ev)).
+Proof.
+  intros Hwf Hi Hok. destruct ev; cbn [step].
+  - destruct (st_connected st) eqn:Hc; [|constructor].
+    cbn [ev_ok] in Hok. apply andb_true_iff in Hok as [H1 H2]. apply (handle_inv st t r hk Hwf Hi Hc H1 H2).
+  - constructor.
+  - cbn [ref_step]. apply app_set_notif_ok; assumption.
+  - constructor.
+  - constructor.
+Qed.
+
 (** every notification / indication of every history is for a characteristic the client has
     subscribed to during the current connection and not unsubscribed since *)
 Lemma notify_only_subscribed evs : forall st t,
@@ -1759,13 +2145,7 @@ Lemma notify_only_subscribed evs : forall st t,
 Proof.
   induction evs as [|ev r IH]; intros st t Hwf Hi Hin; cbn [history_ok history_inputs_ok] in *; [exact I|].
   destruct Hin as [Hok Hin]. split.
-  - destruct ev; cbn [step].
-    + destruct (st_connected st); [|constructor].
-      eapply Forall_impl; [|apply handle_rsp]. intros p. apply is_rsp_notif_ok.
-    + constructor.
-    + apply app_set_notif_ok; assumption.
-    + constructor.
-    + constructor.
+  - apply step_out_ok; assumption.
   - apply IH; [apply step_event_wf; assumption|apply step_inv; assumption|exact Hin].
 Qed.
 
@@ -1790,15 +2170,18 @@ Proof.
   - intros d c L Hcb. rewrite (Hnc d c L) in Hcb. discriminate.
 Qed.
 
+
 (** * Sessions: a value the client may not write survives every session *)
 Lemma write_needs_permission_session (s : session) : forall st h,
   is_value_handle st h = true -> value_may_write st h = false ->
+  Forall (fun x => hook_assigns (snd x) h = false) s ->
   value_at (fold_left session_step s st) h = value_at st h.
 Proof.
-  induction s as [|[r hk] t IH]; intros st h Hv Hw; cbn [fold_left]; [reflexivity|].
+  induction s as [|[r hk] t IH]; intros st h Hv Hw Ha; cbn [fold_left]; [reflexivity|].
+  inversion Ha as [|x l Ha1 Ha2]; subst. cbn [snd] in Ha1.
   pose proof (handle_static st r hk) as Hs.
   assert (Hp : protected (session_step st (r, hk)) h) by (apply (protected_static st _ h Hs); split; assumption).
-  destruct Hp as [Hv' Hw']. rewrite (IH _ h Hv' Hw'). apply write_needs_permission; assumption.
+  destruct Hp as [Hv' Hw']. rewrite (IH _ h Hv' Hw' Ha2). apply write_needs_permission; assumption.
 Qed.
 
 (** * Witnesses *)
